@@ -460,4 +460,1287 @@ Proof.
   - split; [exact HP1|]. intros a b m m' Hp Kp Hm. eapply HP2; eauto.
 Qed.
 
+Lemma is_const1_some : forall l x, is_const1 l = Some x -> l = [Iconst x].
+Proof. intros l y H. destruct l as [|[] [|]]; simpl in H; try discriminate. inversion H; auto. Qed.
+
+Definition if_pre (cc : list instr) : list instr :=
+  match cc with [] => [Idup] | _ => Idup :: Iexpbegin :: cc ++ [Iexpend] end.
+
+(* the condition of an if: dup (or nop, when the results are constants), expbegin, c, expend *)
+Lemma if_cond : forall c, Impl c -> forall ce pc nv cc n1, comp c ce (pc + 2) nv = Some (cc, n1) ->
+  forall (i0 : instr), code_at pc (i0 :: tl (if_pre cc)) ->
+  forall rho v st0 st1 fk vs n n0,
+  (forall f vs n, step nt code (N pc (SV v :: st0) f vs n) = Next (N (S pc) (SV v :: st1) f vs n)) ->
+  envOK ce rho vs n0 nv -> n0 <= n -> n1 <= length vs ->
+  let c1 := ctx_of (pc + length (if_pre cc)) st1 fk nv n1 (fun i => nv <= i < n1 \/ kept ce i) ce n0 in
+  G c1 (fst (den c rho v)) (Tend c1 (snd (den c rho v)) (fun _ _ => True)) (N pc (SV v :: st0) fk vs n).
+Proof.
+  intros c IHc ce pc nv cc n1 Ec i0 Hat rho v st0 st1 fk vs n n0 Hstep HE Hn Hl c1.
+  destruct cc as [|i cc'].
+  - destruct (comp_nil _ _ _ _ _ Ec) as [E1 ->]. rewrite (emptycode_den nt _ E1). cbn [fst snd].
+    subst c1. simpl length. replace (pc + 1) with (S pc) by lia.
+    eapply G_single; [eapply steps_step; [apply Hstep|apply steps_refl]|apply chg_refl|simpl; lia|auto].
+  - unfold if_pre in Hat, c1. simpl tl in Hat.
+    uncons Hat A0. uncons Hat A1. change (i :: cc' ++ [Iexpend]) with ((i :: cc') ++ [Iexpend]) in Hat.
+    remember (i :: cc') as cc eqn:Ecc.
+    destruct (code_at_app _ _ _ _ Hat) as [Hatc Hat2]. uncons Hat2 A2.
+    replace (S (S pc)) with (pc + 2) in * by lia.
+    eapply G_pre; [eapply steps_step; [apply Hstep|one st_expbegin; apply steps_refl]|apply chg_refl|simpl; lia|].
+    replace (S (S pc)) with (pc + 2) by lia.
+    pose proof (impl_inner c IHc ce (pc + 2) nv cc n1 Ec Hatc rho v st1 fk vs n n0 HE Hn Hl) as HA. cbv zeta in HA.
+    subst c1. replace (pc + length (Idup :: Iexpbegin :: cc ++ [Iexpend])) with (S (pc + 2 + length cc)).
+    2:{ simpl. rewrite app_length. simpl. lia. }
+    eapply G_exit; [|exact HA]. intros w f vs' n'. one st_expend. apply steps_refl.
+Qed.
+
+Lemma comp_if_inv : forall c a b ce pc nv cq nv', comp (QIf c a b) ce pc nv = Some (cq, nv') ->
+  exists cc n1 ca n2 cb,
+    let pcc := pc + length (if_pre cc) in
+    let e := pcc + 1 + length ca + 1 in
+    comp c ce (pc + 2) nv = Some (cc, n1) /\ comp a ce (S pcc) n1 = Some (ca, n2) /\ comp b ce e n2 = Some (cb, nv') /\
+    ((exists x y, ca = [Iconst x] /\ cb = [Iconst y] /\
+        cq = Inop :: tl (if_pre cc) ++ [Ijumpifnot e; Ipush x; Ijump (e + 1); Ipush y]) \/
+     cq = if_pre cc ++ Ijumpifnot e :: ca ++ Ijump (e + length cb) :: cb).
+Proof.
+  intros c a b ce pc nv cq nv' Hc. simpl in Hc.
+  destruct (comp c ce (pc + 2) nv) as [[cc n1]|] eqn:Ec; [|discriminate].
+  change (match cc with [] => [Idup] | _ :: _ => Idup :: Iexpbegin :: cc ++ [Iexpend] end) with (if_pre cc) in Hc.
+  destruct (comp a ce (S (pc + length (if_pre cc))) n1) as [[ca n2]|] eqn:Ea; [|discriminate].
+  destruct (comp b ce (pc + length (if_pre cc) + 1 + length ca + 1) n2) as [[cb n3]|] eqn:Eb; [|discriminate].
+  exists cc, n1, ca, n2, cb. cbv zeta.
+  destruct (is_const1 ca) as [x|] eqn:E1; [destruct (is_const1 cb) as [y|] eqn:E2|]; inversion Hc; subst; clear Hc;
+    (split; [reflexivity|]); (split; [exact Ea|]); (split; [exact Eb|]); auto.
+  left. exists x, y. rewrite (is_const1_some _ _ E1), (is_const1_some _ _ E2) in *. auto.
+Qed.
+
+Lemma if_pre_cons : forall cc, if_pre cc = Idup :: tl (if_pre cc).
+Proof. destruct cc; reflexivity. Qed.
+
+Lemma Jstd_stable_cx : forall cx ce rho n0 nv hi (P : list sv -> nat -> Prop) K,
+  (forall (O : nat -> Prop) x y k k', (forall i, O i -> nv <= i < hi) -> P x k -> chg O x y -> k <= k' -> P y k') ->
+  (forall pc'' st' fk' lo hi ce' n0' x y k k', P x k -> keepS (ctx_of pc'' st' fk' lo hi K ce' n0') x y -> k <= k' -> P y k') ->
+  (forall i, kept ce i -> K i) -> g_keep cx = K ->
+  forall a b m m', Jstd ce rho n0 nv hi P a m -> keepS cx a b -> m <= m' -> Jstd ce rho n0 nv hi P b m'.
+Proof.
+  intros cx ce rho n0 nv hi P K S1' S2' HK2 HKe a b m m' Hj Kp Hm.
+  refine (Jstd_keep cx _ _ _ _ _ _ _ _ _ _ _ _ Hj Kp Hm).
+  - intros x y k k' Hp Kq Hk. refine (S2' 0 [] [] 0 0 ce_empty 0 x y k k' Hp _ Hk).
+    unfold keepS in *. simpl. rewrite <- HKe. exact Kq.
+  - rewrite HKe. exact HK2.
+Qed.
+
+Lemma impl_if : forall qc qa qb, Impl qc -> Impl qa -> Impl qb -> Impl (QIf qc qa qb).
+Proof.
+  intros qc qa qb IHc IHa IHb. impl_intro.
+  destruct (comp_if_inv _ _ _ _ _ _ _ _ Hc) as (cc & n1 & ca & n2 & cb & Ec & Ea & Eb & Hcq). cbv zeta in *. clear Hc.
+  set (pcc := pc + length (if_pre cc)) in *. set (e := pcc + 1 + length ca + 1) in *.
+  pose proof (comp_mono _ _ _ _ _ _ Ec) as M1. pose proof (comp_mono _ _ _ _ _ _ Ea) as M2.
+  pose proof (comp_mono _ _ _ _ _ _ Eb) as M3.
+  assert (Hkl : forall i, kept ce i -> i < nv) by (intros; eapply kept_lt; eauto).
+  pose proof (conj S1 S2) as HS. destruct (stable_sub _ _ _ _ _ _ _ _ _ HS) as [S1' S2'].
+  assert (HJ0 : Jstd ce rho n0 nv nv' P vs n) by (split; auto).
+  cbn [Den.den].
+  destruct Hcq as [(x & y & -> & -> & ->)| ->].
+  - (* constant results: nop ... jumpifnot; push x; jump; push y *)
+    change (Inop :: tl (if_pre cc) ++ [Ijumpifnot e; Ipush x; Ijump (e + 1); Ipush y])
+      with ((Inop :: tl (if_pre cc)) ++ [Ijumpifnot e; Ipush x; Ijump (e + 1); Ipush y]) in *.
+    destruct (code_at_app _ _ _ _ Hat) as [Hpre Hat2].
+    assert (Elen : pc + length (Inop :: tl (if_pre cc)) = pcc).
+    { unfold pcc. rewrite (if_pre_cons cc) at 2. reflexivity. }
+    rewrite Elen in Hat2. uncons Hat2 Aj. uncons Hat2 Ax. uncons Hat2 Ajmp. uncons Hat2 Ay.
+    assert (Epc : pc + length ((Inop :: tl (if_pre cc)) ++ [Ijumpifnot e; Ipush x; Ijump (e + 1); Ipush y]) = e + 1).
+    { rewrite app_length, Nat.add_assoc, Elen. unfold e. simpl. lia. }
+    assert (Ee : e = S (S (S pcc))) by (unfold e; simpl; lia).
+    subst c. rewrite Epc in *.
+    pose proof (if_cond qc IHc ce pc nv cc n1 Ec Inop Hpre rho v st st fk vs n n0) as HA. cbv zeta in HA.
+    assert (A0 : at_ pc Inop) by (destruct (code_at_cons _ _ _ _ Hpre); auto).
+    specialize (HA (fun f vs n => st_nop nt code rpc pc _ f vs n A0) HE Hn ltac:(lia)). fold pcc in HA.
+    rewrite (comp_const1 nt _ _ _ _ _ _ Ea), (comp_const1 nt _ _ _ _ _ _ Eb).
+    refine (bind_std (fun w => if truthy w then ([x], None) else ([y], None))
+              pcc st nv n1 (e + 1) st fk nv nv' K ce n0 rho P (fun _ => False) ce HS (le_n _) ltac:(lia)
+              Hkl HK1 HK2 _ eq_refl _ _ _ HA HJ0).
+    + intros i [].
+    + intros w fk' vs' n' Hj.
+      eapply G_pre; [one st_jumpifnot; apply steps_refl|apply chg_refl|simpl; lia|].
+      destruct (truthy w); cbn [fst snd].
+      * eapply G_single; [simpl g_pc; simpl g_st; simpl g_base; one st_push; one st_jump; apply steps_refl
+                         |apply chg_refl|simpl; lia|].
+        intros vs2 n2' Kp L2. refine (Jstd_stable_cx _ _ _ _ _ _ _ K S1' S2' HK2 _ _ _ _ _ Hj Kp L2); reflexivity.
+      * eapply G_single; [simpl g_pc; simpl g_st; simpl g_base; rewrite Ee in *; one st_push;
+                          replace (S (S (S (S pcc)))) with (S (S (S pcc)) + 1) by lia; apply steps_refl
+                         |apply chg_refl|simpl; lia|].
+        intros vs2 n2' Kp L2. refine (Jstd_stable_cx _ _ _ _ _ _ _ K S1' S2' HK2 _ _ _ _ _ Hj Kp L2); reflexivity.
+  - (* general *)
+    destruct (code_at_app _ _ _ _ Hat) as [Hpre Hat2]. fold pcc in Hat2.
+    uncons Hat2 Aj. destruct (code_at_app _ _ _ _ Hat2) as [Hata Hat3]. uncons Hat3 Ajmp.
+    replace (S (S pcc + length ca)) with e in Hat3 by (unfold e; lia). rename Hat3 into Hatb.
+    assert (Epc : pc + length (if_pre cc ++ Ijumpifnot e :: ca ++ Ijump (e + length cb) :: cb) = e + length cb).
+    { rewrite app_length. simpl. rewrite app_length. simpl. unfold e, pcc. lia. }
+    subst c. rewrite Epc in *.
+    rewrite (if_pre_cons cc) in Hpre.
+    pose proof (if_cond qc IHc ce pc nv cc n1 Ec Idup Hpre rho v st (SV v :: st) fk vs n n0) as HA. cbv zeta in HA.
+    assert (A0 : at_ pc Idup) by (destruct (code_at_cons _ _ _ _ Hpre); auto).
+    specialize (HA (fun f vs n => st_dup nt code rpc pc _ _ f vs n A0) HE Hn ltac:(lia)). fold pcc in HA.
+    refine (bind_std (fun w => if truthy w then den qa rho v else den qb rho v)
+              pcc (SV v :: st) nv n1 (e + length cb) st fk nv nv' K ce n0 rho P (fun i => n1 <= i < nv') ce
+              HS (le_n _) ltac:(lia) Hkl HK1 HK2 _ eq_refl _ _ _ HA HJ0).
+    + intros i Hi. lia.
+    + intros w fk' vs' n' Hj. pose proof Hj as (E' & Hn' & Hl' & Hp').
+      eapply G_pre; [one st_jumpifnot; apply steps_refl|apply chg_refl|simpl; lia|].
+      destruct (truthy w).
+      * (* then-branch, followed by the jump over the else-branch *)
+        set (cx := {| g_pc := S pcc + length ca; g_st := st; g_base := fk' ++ fk; g_own := fun i => n1 <= i < nv';
+                      g_keep := K; g_ce := ce; g_n0 := n0 |}).
+        assert (HB : G cx (fst (den qa rho v)) (Tend cx (snd (den qa rho v)) (Jstd ce rho n0 nv nv' P))
+                       (N (S pcc) (SV v :: st) (fk' ++ fk) vs' n')).
+        { apply (impl_body qa IHa ce (S pcc) n1 ca n2 Ea Hata cx rho v vs' n' (Jstd ce rho n0 nv nv' P)); simpl; auto; try lia.
+          - intros; apply HK1; lia.
+          - eapply envOK_nv; eauto.
+          - intros p q m m' Hq C Hm.
+            refine (Jstd_chg _ _ _ _ _ _ _ _ _ _ _ (fun x y k k' => S1' _ x y k k' _) _ Hq C Hm); simpl; intros; lia.
+          - intros p q m m' Hq C Hm. refine (Jstd_stable_cx cx _ _ _ _ _ _ K S1' S2' HK2 _ _ _ _ _ Hq C Hm); reflexivity. }
+        eapply G_impl; [|eapply (G_exit nt code rpc (S pcc + length ca) (e + length cb)); [|exact HB]].
+        -- intros s0. apply Tend_sub; auto.
+        -- intros w' f vs2 n2'. one st_jump. apply steps_refl.
+      * apply (impl_body qb IHb ce e n2 cb nv' Eb Hatb (cbody (ctx_of (e + length cb) st fk nv nv' K ce n0) (fun i => n1 <= i < nv') ce fk') rho v vs' n'
+                 (Jstd ce rho n0 nv nv' P)); simpl; auto; try lia.
+        -- intros; apply HK1; lia.
+        -- eapply envOK_nv; eauto. lia.
+        -- intros p q m m' Hq C Hm.
+           refine (Jstd_chg _ _ _ _ _ _ _ _ _ _ _ (fun x y k k' => S1' _ x y k k' _) _ Hq C Hm); simpl; intros; lia.
+        -- intros p q m m' Hq C Hm. refine (Jstd_stable_cx _ _ _ _ _ _ _ K S1' S2' HK2 _ _ _ _ _ Hq C Hm); reflexivity.
+Qed.
+
+Lemma Jstd_update : forall ce rho n0 nv hi (P : list sv -> nat -> Prop) vs n k x vs',
+  (forall (O : nat -> Prop) x y k k', (forall i, O i -> nv <= i < hi) -> P x k -> chg O x y -> k <= k' -> P y k') ->
+  Jstd ce rho n0 nv hi P vs n -> update vs k x = Some vs' -> nv <= k < hi -> Jstd ce rho n0 nv hi P vs' n.
+Proof.
+  intros ce rho n0 nv hi P vs n k x vs' S1' Hj U Hk.
+  assert (C : chg (fun i => i = k) vs vs') by (eapply chg_update; eauto).
+  refine (Jstd_chg _ _ _ _ _ _ _ _ _ _ _ (fun x y k k' => S1' _ x y k k' _) _ Hj C (le_n _)); simpl; intros; lia.
+Qed.
+
+(* the body of a binding construct: store the value in a fresh slot, then run q with the variable visible *)
+Lemma bound_body : forall q, Impl q -> forall ce x k pcq cq nvq', comp q (add_var ce x k) pcq (S k) = Some (cq, nvq') -> code_at pcq cq ->
+  forall rho n0 nv hi (P : list sv -> nat -> Prop) K cx w u vs n,
+    g_pc cx = pcq + length cq -> g_ce cx = ce -> g_keep cx = K -> g_n0 cx = n0 ->
+    (forall i, k <= i < nvq' -> g_own cx i) ->
+    nv <= k -> nvq' <= hi ->
+    (forall i, nv <= i < hi -> K i) -> (forall i, kept ce i -> K i) ->
+    (forall (O : nat -> Prop) x y k k', (forall i, O i -> nv <= i < hi) -> P x k -> chg O x y -> k <= k' -> P y k') ->
+    (forall pc'' st' fk' lo hi ce' n0' x y k k', P x k -> keepS (ctx_of pc'' st' fk' lo hi K ce' n0') x y -> k <= k' -> P y k') ->
+    Jstd ce rho n0 nv hi P vs n -> nth_error vs k = Some (SV w) ->
+    G cx (fst (den q ((x, w) :: rho) u)) (Tend cx (snd (den q ((x, w) :: rho) u)) (Jstd ce rho n0 nv hi P))
+      (N pcq (SV u :: g_st cx) (g_base cx) vs n).
+Proof.
+  intros q IH ce x k pcq cq nvq' Ec Hat rho n0 nv hi P K cx w u vs n Hpc Hce HKe Hn0 Hown Hk Hhi HK1 HK2 S1' S2' Hj Hnth.
+  pose proof (comp_mono _ _ _ _ _ _ Ec) as M. destruct Hj as (E & Hn & Hl & Hp).
+  apply (impl_body q IH (add_var ce x k) pcq (S k) cq nvq' Ec Hat cx ((x, w) :: rho) u vs n (Jstd ce rho n0 nv hi P)); auto.
+  - rewrite Hce. reflexivity.
+  - intros; apply Hown; lia.
+  - rewrite HKe. intros; apply HK1; lia.
+  - rewrite HKe. intros i Hi. destruct (kept_add_var _ _ _ _ Hi) as [->|Hi']; [apply HK1; lia|auto].
+  - rewrite Hn0. apply envOK_add_var; [eapply envOK_nv; eauto; lia|lia|auto].
+  - rewrite Hn0; auto.
+  - lia.
+  - intros p q' m m' Hq C Hm.
+    refine (Jstd_chg _ _ _ _ _ _ _ _ _ _ _ (fun x y k k' => S1' _ x y k k' _) _ Hq C Hm); simpl; intros; lia.
+  - intros p q' m m' Hq C Hm. refine (Jstd_stable_cx cx _ _ _ _ _ _ K S1' S2' HK2 HKe _ _ _ _ Hq C Hm).
+  - split; auto.
+Qed.
+
+
+Definition bind_pre (cs : list instr) (n1 : nat) : list instr :=
+  match cs with
+  | [] => [Idup; Inop; Istore (V n1)]
+  | _ => Idup :: Iexpbegin :: cs ++ [Istore (V n1); Iexpend]
+  end.
+
+Lemma comp_bind_inv : forall qs x qb ce pc nv cq nv', comp (QBind qs x qb) ce pc nv = Some (cq, nv') ->
+  exists cs n1 cb, comp qs ce (pc + 2) nv = Some (cs, n1) /\
+    comp qb (add_var ce x n1) (pc + length (bind_pre cs n1)) (S n1) = Some (cb, nv') /\ cq = bind_pre cs n1 ++ cb.
+Proof.
+  intros qs x qb ce pc nv cq nv' Hc. simpl in Hc.
+  destruct (comp qs ce (pc + 2) nv) as [[cs n1]|] eqn:Es; [|discriminate].
+  change (match cs with [] => [Idup; Inop; Istore (V n1)] | _ :: _ => Idup :: Iexpbegin :: cs ++ [Istore (V n1); Iexpend] end)
+    with (bind_pre cs n1) in Hc.
+  destruct (comp qb (add_var ce x n1) (pc + length (bind_pre cs n1)) (S n1)) as [[cb n2]|] eqn:Eb; [|discriminate].
+  inversion Hc; subst. eauto 6.
+Qed.
+
+Lemma impl_bind : forall qs x qb, Impl qs -> Impl qb -> Impl (QBind qs x qb).
+Proof.
+  intros qs x qb IHs IHb. impl_intro.
+  destruct (comp_bind_inv _ _ _ _ _ _ _ _ Hc) as (cs & n1 & cb & Es & Eb & ->). clear Hc.
+  pose proof (comp_mono _ _ _ _ _ _ Es) as M1. pose proof (comp_mono _ _ _ _ _ _ Eb) as M2.
+  assert (Hkl : forall i, kept ce i -> i < nv) by (intros; eapply kept_lt; eauto).
+  pose proof (conj S1 S2) as HS. destruct (stable_sub _ _ _ _ _ _ _ _ _ HS) as [S1' S2'].
+  assert (HJ0 : Jstd ce rho n0 nv nv' P vs n) by (split; auto).
+  cbn [Den.den].
+  destruct (code_at_app _ _ _ _ Hat) as [Hpre Hatb].
+  subst c. rewrite app_length, Nat.add_assoc in *.
+  set (pcb := pc + length (bind_pre cs n1)) in *.
+  destruct cs as [|i0 cs'].
+  - (* the source emits no code: dup; nop; store x *)
+    destruct (comp_nil _ _ _ _ _ Es) as [E1 ->]. unfold bind_pre in Hpre. simpl in pcb.
+    uncons Hpre A0. uncons Hpre A1. uncons Hpre A2.
+    rewrite (emptycode_den nt _ E1).
+    refine (bind_std (fun w => den qb ((x, w) :: rho) v) (S (S pc)) (SV v :: st) nv nv (pcb + length cb) st fk nv nv' K ce n0 rho P
+              (fun i => nv <= i < nv') ce HS (le_n _) ltac:(lia) Hkl HK1 HK2 _ eq_refl _ ([v], None)
+              (N pc (SV v :: st) fk vs n) _ HJ0).
+    + intros i Hi. lia.
+    + intros w fk' vs' n' Hj. pose proof Hj as (E' & Hn' & Hl' & Hp').
+      destruct (update_some vs' nv (SV w)) as [vs'' U]; [lia|].
+      destruct (update_spec _ _ _ _ U) as (UL & UN & UO).
+      eapply G_pre; [one st_store; apply steps_refl|eapply chg_update; [exact U|simpl; lia]|simpl; lia|].
+      replace (S (S (S pc))) with pcb by (unfold pcb; lia).
+      apply (bound_body qb IHb ce x nv pcb cb nv' Eb Hatb rho n0 nv nv' P K
+               (cbody (ctx_of (pcb + length cb) st fk nv nv' K ce n0) (fun i => nv <= i < nv') ce fk') w v vs'' n');
+        auto; try reflexivity.
+      eapply Jstd_update; eauto.
+    + cbn [fst snd]. eapply G_single; [one st_dup; one st_nop; apply steps_refl|apply chg_refl|simpl; lia|auto].
+  - (* dup; expbegin; source; store x; expend *)
+    remember (i0 :: cs') as cs eqn:Ecs.
+    assert (Epre : bind_pre cs n1 = Idup :: Iexpbegin :: cs ++ [Istore (V n1); Iexpend]) by (subst cs; reflexivity).
+    rewrite Epre in Hpre. uncons Hpre A0. uncons Hpre A1.
+    destruct (code_at_app _ _ _ _ Hpre) as [Hats Hpre2]. uncons Hpre2 A2. uncons Hpre2 A3.
+    replace (S (S pc)) with (pc + 2) in * by lia.
+    assert (Epcb : pcb = S (S (pc + 2 + length cs))).
+    { unfold pcb. rewrite Epre. simpl. rewrite app_length. simpl. lia. }
+    pose proof (impl_inner qs IHs ce (pc + 2) nv cs n1 Es Hats rho v (SV v :: st) fk vs n n0 HE Hn ltac:(lia)) as HA.
+    cbv zeta in HA.
+    refine (bind_std (fun w => den qb ((x, w) :: rho) v) (pc + 2 + length cs) (SV v :: st) nv n1 (pcb + length cb) st fk nv nv' K ce n0 rho P
+              (fun i => n1 <= i < nv') ce HS (le_n _) ltac:(lia) Hkl HK1 HK2 _ eq_refl _ (den qs rho v)
+              (N pc (SV v :: st) fk vs n) _ HJ0).
+    + intros i Hi. lia.
+    + intros w fk' vs' n' Hj. pose proof Hj as (E' & Hn' & Hl' & Hp').
+      destruct (update_some vs' n1 (SV w)) as [vs'' U]; [lia|].
+      destruct (update_spec _ _ _ _ U) as (UL & UN & UO).
+      eapply G_pre; [one st_store; one st_expend; apply steps_refl|eapply chg_update; [exact U|simpl; lia]|simpl; lia|].
+      rewrite <- Epcb.
+      apply (bound_body qb IHb ce x n1 pcb cb nv' Eb Hatb rho n0 nv nv' P K
+               (cbody (ctx_of (pcb + length cb) st fk nv nv' K ce n0) (fun i => n1 <= i < nv') ce fk') w v vs'' n');
+        auto; try reflexivity.
+      eapply Jstd_update; eauto.
+    + eapply G_pre; [one st_dup; one st_expbegin; apply steps_refl|apply chg_refl|simpl; lia|].
+      replace (S (S pc)) with (pc + 2) by lia. exact HA.
+Qed.
+
+Lemma impl_label : forall l qb, Impl qb -> Impl (QLabel l qb).
+Proof.
+  intros l qb IHb. impl_intro. simpl in Hc. dcomp. inversion Hc; subst cq nv'. clear Hc. rename l0 into cb, n1 into nv'.
+  pose proof (comp_mono _ _ _ _ _ _ Ec) as M1. uncons Hat A0.
+  assert (Hkl : forall i, kept ce i -> i < nv) by (intros; eapply kept_lt; eauto).
+  pose proof (conj S1 S2) as HS. destruct (stable_sub _ _ _ _ _ _ _ _ _ HS) as [S1' S2'].
+  assert (HJ0 : Jstd ce rho n0 nv nv' P vs n) by (split; auto).
+  assert (Epc : pc + length (Iforklabel (V nv) :: cb) = S pc + length cb) by (simpl; lia).
+  subst c. rewrite Epc in *.
+  set (c := ctx_of (S pc + length cb) st fk nv nv' K ce n0).
+  destruct (update_some vs nv (SLbl n)) as [vs1 U]; [lia|].
+  destruct (update_spec _ _ _ _ U) as (UL & UN & UO).
+  set (fx := F rpc pc (SLbl n :: SV v :: st)).
+  set (ceb := add_lbl ce l nv).
+  set (cx := {| g_pc := S pc + length cb; g_st := st; g_base := fx :: fk; g_own := fun i => S nv <= i < nv';
+                g_keep := K; g_ce := ceb; g_n0 := S n |}).
+  set (Pb := fun a m => Jstd ce rho n0 nv nv' P a m /\ nth_error a nv = Some (SLbl n)).
+  assert (HJ1 : Jstd ce rho n0 nv nv' P vs1 n) by (eapply Jstd_update; eauto; lia).
+  assert (HB : G cx (fst (den qb rho v)) (Tend cx (snd (den qb rho v)) Pb) (N (S pc) (SV v :: st) (fx :: fk) vs1 (S n))).
+  { apply (impl_body qb IHb ceb (S pc) (S nv) cb nv' Ec Hat cx rho v vs1 (S n) Pb); simpl; auto; try lia.
+    - intros; apply HK1; lia.
+    - intros i Hi. destruct (kept_add_lbl _ _ _ _ Hi) as [->|Hi']; [apply HK1; lia|auto].
+    - destruct HJ1 as (E1 & _). apply envOK_add_lbl with (id := n); auto; try lia.
+      apply envOK_n0 with (n0 := n0); [|lia]. eapply envOK_nv; eauto.
+    - intros p q m m' [Hq Hq2] C Hm. split.
+      + refine (Jstd_chg _ _ _ _ _ _ _ _ _ _ _ (fun x y k k' => S1' _ x y k k' _) _ Hq C Hm); simpl; intros; lia.
+      + rewrite <- Hq2. symmetry. apply C. lia.
+    - intros p q m m' [Hq Hq2] C Hm. split.
+      + refine (Jstd_stable_cx cx _ _ _ _ _ _ K S1' S2' HK2 eq_refl _ _ _ _ Hq C Hm).
+      + rewrite <- Hq2. symmetry. apply C. simpl. apply HK1. lia.
+    - split; [|exact UN].
+      refine (Jstd_chg _ _ _ _ _ _ (fun _ => False) _ _ _ _ (fun x y k k' => S1' _ x y k k' _) _ HJ1 (chg_refl _ _) _);
+        simpl; intros; try lia; tauto. }
+  eapply G_pre; [one st_forklabel; apply steps_refl|eapply chg_update; [exact U|simpl; lia]|simpl; lia|].
+  assert (Htr : forall y vs' n', okerr n0 y -> steps (B (Some y) (fx :: fk) vs' n') (B (Some y) fk vs' n')).
+  { intros y vs' n' Hy. one st_popfork. one bt_label.
+    destruct y as [[| |m]|]; simpl; try apply steps_refl.
+    simpl in Hy. destruct (Nat.eqb_spec m n); [lia|apply steps_refl]. }
+  cbn [Den.den]. destruct (den qb rho v) as [ws fin]. cbn [fst snd] in HB.
+  match goal with |- G _ (fst ?r) _ _ => assert (Hf : fst r = ws)
+    by (destruct fin as [[e0|l']|]; [|destruct (N.eqb l l')|]; reflexivity); rewrite Hf end.
+  refine (G_ctx nt code rpc cx c [fx] (fun _ _ => True) _ _ eq_refl eq_refl eq_refl _ _ _ _ _ _ _ _ _ I HB); auto.
+  - simpl; intros; lia.
+  - simpl; lia.
+  - intros y vs' n' _ Hy. exists vs', n'. split; [apply Htr; auto|]. split; [apply chg_refl|lia].
+  - intros s1 _ (e & vs4 & n4 & St4 & Ch4 & Le4 & HE4 & ((E4 & Hn4 & Hl4 & HP4) & Hlab)). simpl in St4, Ch4, HE4.
+    assert (Ch4' : chg (g_own c) (vars_of s1) vs4) by (eapply chg_mono; [|exact Ch4]; simpl; intros; lia).
+    destruct fin as [[e0|l']|]; cbn [fst snd] in *; simpl in HE4.
+    + (* error *) subst e. exists (Some (VE (err_of e0))), vs4, n4.
+      split; [eapply steps_trans; [exact St4|apply Htr; destruct e0; simpl; auto]|]. split; [exact Ch4'|]. split; [exact Le4|]. split; [reflexivity|exact HP4].
+    + (* break *) destruct HE4 as (k & id & Hk & Hid & ->). simpl in Hk. rewrite N.eqb_sym in Hk.
+      destruct (N.eqb l l') eqn:El; cbn [snd].
+      * inversion Hk; subst k. rewrite Hlab in Hid. inversion Hid; subst id.
+        exists None, vs4, n4. split; [|split; [exact Ch4'|split; [exact Le4|split; [reflexivity|exact HP4]]]].
+        eapply steps_trans; [exact St4|]. one st_popfork. eapply steps_step; [eapply bt_label; eauto|]. cbv beta iota. rewrite Nat.eqb_refl. apply steps_refl.
+      * destruct E4 as [_ El4]. destruct (El4 _ _ Hk) as (_ & id' & Hid' & Hlt). rewrite Hid in Hid'. inversion Hid'; subst id'.
+        exists (Some (VE (EB id))), vs4, n4. split; [eapply steps_trans; [exact St4|apply Htr; simpl; lia]|].
+        split; [exact Ch4'|]. split; [exact Le4|]. split; [|exact HP4]. simpl. exists k, id. auto.
+    + (* normal end *) subst e. exists None, vs4, n4.
+      split; [|split; [exact Ch4'|split; [exact Le4|split; [reflexivity|exact HP4]]]].
+      eapply steps_trans; [exact St4|]. one st_popfork. one bt_label. apply steps_refl.
+Qed.
+
+(* the exit of a try body: forktryend pushes a fork per output, then jumps to the end *)
+Lemma G_tryend : forall pe pend st fb fk (O K : nat -> Prop) ce n0 (T T' : state -> Prop),
+  at_ pe Iforktryend -> at_ (S pe) (Ijump pend) ->
+  (forall x vs n, steps (B (Some (VT x)) (fb :: fk) vs n) (B (Some x) fk vs n)) ->
+  (forall s, T s -> T' s) ->
+  forall ws s,
+  G {| g_pc := pe; g_st := st; g_base := fb :: fk; g_own := O; g_keep := K; g_ce := ce; g_n0 := n0 |} ws T s ->
+  G {| g_pc := pend; g_st := st; g_base := fk; g_own := O; g_keep := K; g_ce := ce; g_n0 := n0 |} ws T' s.
+Proof.
+  intros pe pend st fb fk O K ce n0 T T' A1 A2 Hun HT. induction ws; intros s HG.
+  - simpl in *. destruct HG as (s' & St & Ch & Le & H). exists s'. auto.
+  - simpl in HG. destruct HG as (fk' & vs3 & n3 & St & Ch & Le & R).
+    eapply (G_cons nt code rpc _ a ws _ _ (F rpc pe (SV a :: st) :: fk' ++ [fb]) vs3 n3); simpl.
+    + eapply steps_trans; [exact St|]. one st_forktryend. one st_jump. rewrite <- app_assoc. apply steps_refl.
+    + exact Ch.
+    + exact Le.
+    + intros vs2 n2 Kp L2. destruct (R vs2 n2 Kp L2) as [R1 R2]. rewrite <- app_assoc. simpl. split.
+      * eapply G_pre; [one st_popfork; one bt_tryend; apply steps_refl|apply chg_refl|simpl; lia|].
+        apply IHws. exact R1.
+      * intros x Hx. destruct (R2 (VT x) I) as (vs4 & n4 & St4 & Ch4 & Le4). exists vs4, n4.
+        split; [|auto]. one st_popfork. one bt_tryend. eapply steps_trans; [exact St4|apply Hun].
+Qed.
+
+Lemma impl_try : forall qa h, Impl qa -> Popt Impl h -> Impl (QTry qa h).
+Proof.
+  intros qa h IHa IHh. impl_intro. simpl in Hc.
+  destruct (comp qa ce (S pc) nv) as [[ca n1]|] eqn:Ea; [|discriminate].
+  pose proof (comp_mono _ _ _ _ _ _ Ea) as M1.
+  assert (Hkl : forall i, kept ce i -> i < nv) by (intros; eapply kept_lt; eauto).
+  pose proof (conj S1 S2) as HS. destruct (stable_sub _ _ _ _ _ _ _ _ _ HS) as [S1' S2'].
+  set (hp := pc + 1 + length ca + 2) in *.
+  set (fb := F rpc pc (SV v :: st)).
+  (* shape of the code and of the handler *)
+  assert (Hsh : exists ch, cq = Iforktrybegin hp :: ca ++ Iforktryend :: Ijump (hp + length ch) :: ch /\ n1 <= nv' /\
+            match h with
+            | Some h' => comp h' ce hp n1 = Some (ch, nv')
+            | None => ch = [Ibacktrack] /\ nv' = n1
+            end).
+  { destruct h as [h'|].
+    - destruct (comp h' ce hp n1) as [[ch n2]|] eqn:Eh; [|discriminate]. inversion Hc; subst.
+      exists ch. split; [auto|]. split; [eapply comp_mono; eauto|auto].
+    - inversion Hc; subst. exists [Ibacktrack]. auto. }
+  destruct Hsh as (ch & -> & M2 & Hh). clear Hc.
+  uncons Hat A0. destruct (code_at_app _ _ _ _ Hat) as [Hata Hat2]. uncons Hat2 A1. uncons Hat2 A2.
+  replace (S (S (S pc + length ca))) with hp in Hat2 by (unfold hp; lia). rename Hat2 into Hath.
+  assert (Epc : pc + length (Iforktrybegin hp :: ca ++ Iforktryend :: Ijump (hp + length ch) :: ch) = hp + length ch).
+  { simpl. rewrite app_length. simpl. unfold hp. lia. }
+  subst c. rewrite Epc in *.
+  set (c := ctx_of (hp + length ch) st fk nv nv' K ce n0).
+  set (Pa := Jstd ce rho n0 nv nv' P).
+  assert (HA : G (ctx_of (S pc + length ca) st (fb :: fk) nv n1 K ce n0) (fst (den qa rho v))
+                 (Tend (ctx_of (S pc + length ca) st (fb :: fk) nv n1 K ce n0) (snd (den qa rho v)) Pa)
+                 (N (S pc) (SV v :: st) (fb :: fk) vs n)).
+  { apply (IHa ce (S pc) nv ca n1 Ea Hata rho v st (fb :: fk) vs n n0 K Pa); auto; try lia.
+    - intros; apply HK1; lia.
+    - apply Jstd_stable; auto.
+    - split; auto. }
+  assert (Hun : forall x vs' n', steps (B (Some (VT x)) (fb :: fk) vs' n') (B (Some x) fk vs' n')).
+  { intros. one st_popfork. one bt_trybegin_vt. apply steps_refl. }
+  eapply G_pre; [one st_forktrybegin; apply steps_refl|apply chg_refl|simpl; lia|].
+  (* what the try construct does when the body has been exhausted *)
+  set (Tfin := fun s1 : state =>
+     match snd (den qa rho v) with
+     | Some (XErr e0) =>
+         match h with
+         | Some h' => G c (fst (den h' rho (errval e0))) (Tend c (snd (den h' rho (errval e0))) P) s1
+         | None => Tend c None P s1
+         end
+     | fin => Tend c fin P s1
+     end).
+  assert (HT : forall s1, Tend (ctx_of (S pc + length ca) st (fb :: fk) nv n1 K ce n0) (snd (den qa rho v)) Pa s1 -> Tfin s1).
+  { intros s1 (e & vs4 & n4 & St4 & Ch4 & Le4 & HE4 & (E4 & Hn4 & Hl4 & HP4)). simpl in St4, Ch4, HE4. unfold Tfin.
+    assert (Ch4' : chg (g_own c) (vars_of s1) vs4) by (eapply chg_mono; [|exact Ch4]; simpl; intros; lia).
+    destruct (snd (den qa rho v)) as [[e0|l']|]; simpl in HE4.
+    - subst e. destruct h as [h'|].
+      + eapply G_pre; [eapply steps_trans; [exact St4|one st_popfork; one bt_trybegin_catch; apply steps_refl]|exact Ch4'|exact Le4|].
+        pose proof (IHh ce hp n1 ch nv' Hh Hath rho (errval e0) st fk vs4 n4 n0 K P) as HB. cbv zeta in HB.
+        refine (G_sub nt code rpc (ctx_of (hp + length ch) st fk n1 nv' K ce n0) c _ _ eq_refl eq_refl eq_refl _ _ (le_n _) _ _ _ (HB _ _ _ _ _ _ _)); auto.
+        * simpl; intros; lia.
+        * intros s2. apply Tend_sub; auto. simpl; intros; lia.
+        * eapply envOK_nv; eauto.
+        * intros; apply HK1; lia.
+        * split; [intros p q m m' Hp C Hm; eapply S1'; eauto; simpl; intros; lia|intros p q m m' Hp C Hm; eapply S2'; eauto].
+      + destruct Hh as [-> ->]. uncons Hath A3.
+        exists None, vs4, n4. split; [|split; [exact Ch4'|split; [exact Le4|split; [reflexivity|exact HP4]]]].
+        eapply steps_trans; [exact St4|]. one st_popfork. one bt_trybegin_catch. one st_backtrack. apply steps_refl.
+    - destruct HE4 as (k & id & Hk & Hid & ->).
+      exists (Some (VE (EB id))), vs4, n4. split; [|split; [exact Ch4'|split; [exact Le4|split; [|exact HP4]]]].
+      + eapply steps_trans; [exact St4|]. one st_popfork. one bt_trybegin_brk. apply steps_refl.
+      + simpl. exists k, id. auto.
+    - subst e. exists None, vs4, n4. split; [|split; [exact Ch4'|split; [exact Le4|split; [reflexivity|exact HP4]]]].
+      eapply steps_trans; [exact St4|]. one st_popfork. one bt_trybegin_none. apply steps_refl. }
+  pose proof (G_tryend (S pc + length ca) (hp + length ch) st fb fk _ K ce n0 _ Tfin A1 A2 Hun HT _ _ HA) as HG.
+  assert (HG' : G c (fst (den qa rho v)) Tfin (N (S pc) (SV v :: st) (fb :: fk) vs n)).
+  { refine (G_sub nt code rpc (ctx_of (hp + length ch) st fk nv n1 K ce n0) c _ _ eq_refl eq_refl eq_refl _ _ (le_n _) (fun s H => H) _ _ HG); auto.
+    simpl; intros; lia. }
+  clear HG HA. unfold Tfin in HG'. cbn [Den.den].
+  destruct (den qa rho v) as [ws [[e0|l']|]]; cbn [fst snd] in *; try exact HG'.
+  destruct h as [h'|]; [|exact HG'].
+  destruct (den h' rho (errval e0)) as [wh fh] eqn:Edh. cbn [seq fst snd] in *. apply G_app. exact HG'.
+Qed.
+
+Lemma foldgen_collect : forall ws l0,
+  foldgen (list jv) (fun l w => ([], None, l ++ [w])) ws l0 = ([], None, l0 ++ ws).
+Proof.
+  induction ws; intros l0; simpl. - rewrite app_nil_r. auto.
+  - rewrite IHws. rewrite <- app_assoc. reflexivity.
+Qed.
+
+Lemma impl_array : forall q, Impl q -> Impl (QArray q).
+Proof.
+  intros q IHq. impl_intro. simpl in Hc.
+  destruct (comp q ce (pc + 3) (S nv)) as [[cq' n1]|] eqn:Eq; [|discriminate].
+  pose proof (comp_mono _ _ _ _ _ _ Eq) as M1.
+  assert (Hkl : forall i, kept ce i -> i < nv) by (intros; eapply kept_lt; eauto).
+  pose proof (conj S1 S2) as HS. destruct (stable_sub _ _ _ _ _ _ _ _ _ HS) as [S1' S2'].
+  cbn [Den.den].
+  destruct (array_fold q) as [cs|] eqn:Ef.
+  - (* folded to a constant *)
+    inversion Hc; subst cq nv'. clear Hc. uncons Hat A0.
+    assert (Ha : acl q = Some cs) by (destruct q; simpl in Ef; auto; discriminate).
+    rewrite (acl_sound nt _ _ Ha). cbn [fst snd].
+    eapply G_single; [subst c; simpl; replace (pc + 1) with (S pc) by lia; one st_const; apply steps_refl
+                     |apply chg_refl|simpl; lia|].
+    intros; eapply S2; eauto.
+  - inversion Hc; subst cq nv'. clear Hc.
+    uncons Hat A0. uncons Hat A1. uncons Hat A2. replace (S (S (S pc))) with (pc + 3) in Hat by lia.
+    destruct (code_at_app _ _ _ _ Hat) as [Hatq Hat2]. uncons Hat2 A3. uncons Hat2 A4. uncons Hat2 A5. uncons Hat2 A6.
+    set (pa := pc + 3 + length cq') in *.
+    assert (Epc : pc + length (Ipush (VArr []) :: Istore (V nv) :: Ifork (pa + 2) :: cq' ++
+                    [Iappend (V nv); Ibacktrack; Ipop; Iload (V nv)]) = pa + 4).
+    { simpl. rewrite app_length. simpl. unfold pa. lia. }
+    subst c. rewrite Epc in *.
+    set (c := ctx_of (pa + 4) st fk nv n1 K ce n0).
+    destruct (update_some vs nv (SV (VArr []))) as [vs1 U]; [lia|].
+    destruct (update_spec _ _ _ _ U) as (UL & UN & UO).
+    set (fx := F rpc (S (S pc)) (SV v :: st)).
+    assert (HJ0 : Jstd ce rho n0 nv n1 P vs n) by (split; auto).
+    assert (HJ1 : Jstd ce rho n0 nv n1 P vs1 n) by (eapply Jstd_update; [exact S1'|exact HJ0|exact U|lia]).
+    eapply G_pre; [one st_push; one st_store; one st_fork; apply steps_refl
+                  |eapply chg_update; [exact U|simpl; lia]|simpl; lia|].
+    replace (S (S (S pc))) with (pc + 3) by lia.
+    pose proof (impl_inner q IHq ce (pc + 3) (S nv) cq' n1 Eq Hatq rho v st (fx :: fk) vs1 n n0) as HA. cbv zeta in HA.
+    destruct HJ1 as (E1 & Hn1 & Hl1 & HP1).
+    specialize (HA ltac:(eapply envOK_nv; eauto) Hn ltac:(lia)). fold pa in HA.
+    set (fb := fun (l : list jv) (w : jv) => (@nil jv, @None exn, l ++ [w])).
+    set (Jg := fun (l : list jv) (a : list sv) => nth_error a nv = Some (SV (VArr l))).
+    pose proof (fold_std pa st (S nv) n1 0 st (fx :: fk) nv n1 K ce n0 rho P (list jv) Jg fb (fun i => i = nv) ce
+                  HS ltac:(lia) (le_n _) Hkl HK1 HK2) as HF. cbv zeta in HF.
+    destruct (den q rho v) as [ws fin] eqn:Ed. cbn [fst snd] in HA.
+    assert (HG : G (ctx_of 0 st (fx :: fk) nv n1 K ce n0) []
+                   (Tend (ctx_of 0 st (fx :: fk) nv n1 K ce n0) fin (fun a m => Jstd ce rho n0 nv n1 P a m /\ Jg ws a))
+                   (N (pc + 3) (SV v :: st) (fx :: fk) vs1 n)).
+    { refine (HF _ eq_refl _ _ ws [] _ fin [] None ws HA _ (foldgen_collect ws [])).
+      - intros i ->. lia.
+      - intros g a b Hg C. unfold Jg in *. rewrite <- Hg. symmetry. apply C. lia.
+      - intros w g fk' vs' n' os' x' g' [Hj Hg] Efb. unfold fb in Efb. inversion Efb; subst os' x' g'.
+        pose proof Hj as (E' & Hn' & Hl' & Hp').
+        destruct (update_some vs' nv (SV (VArr (g ++ [w])))) as [vs'' U']; [lia|].
+        destruct (update_spec _ _ _ _ U') as (UL' & UN' & UO').
+        eapply G_end; [one st_append; one st_backtrack; apply steps_refl
+                      |eapply chg_update; [exact U'|reflexivity]|simpl; lia|reflexivity|].
+        split; [eapply Jstd_update; eauto; lia|exact UN'].
+      - split; [split; auto|exact UN]. }
+    simpl in HG. destruct HG as (s' & St & Ch & Le & (e & vs4 & n4 & St4 & Ch4 & Le4 & HE4 & ((E4 & Hn4 & Hl4 & HP4) & Hg4))).
+    simpl in St4, Ch4, HE4.
+    assert (Ch' : chg (g_own c) vs1 vs4) by (eapply chg_trans; eauto).
+    destruct fin as [x|]; simpl in HE4; cbn [fst snd].
+    + destruct (encR_some _ _ _ _ HE4) as (y & ->).
+      eapply G_end; [eapply steps_trans; [exact St|eapply steps_trans; [exact St4|eapply fork_transparent; eauto]]
+                    |exact Ch'|simpl; simpl in Le; lia|exact HE4|exact HP4].
+    + subst e.
+      eapply G_single with (vs3 := vs4) (n3 := n4); [eapply steps_trans; [exact St|eapply steps_trans; [exact St4|]]|exact Ch'|simpl; simpl in Le; lia|].
+      * one st_popfork. one bt_fork_none. replace (pa + 2) with (S (S pa)) by lia. one st_pop. one st_load.
+        replace (S (S (S (S pa)))) with (pa + 4) by lia. apply steps_refl.
+      * intros; eapply S2'; eauto.
+Qed.
+
+Lemma foldgen_alt : forall ws g,
+  foldgen bool (fun g w => if truthy w then ([w], None, true) else ([], None, g)) ws g =
+  (filter truthy ws, None, match filter truthy ws with [] => g | _ => true end).
+Proof.
+  induction ws; intros g; simpl; auto.
+  destruct (truthy a); rewrite IHws; simpl; auto.
+  destruct (filter truthy ws); auto.
+Qed.
+
+Lemma impl_alt : forall qa qb, Impl qa -> Impl qb -> Impl (QAlt qa qb).
+Proof.
+  intros qa qb IHa IHb. impl_intro. simpl in Hc. dcomp. inversion Hc; subst cq nv'. clear Hc.
+  rename l into ca, l0 into cb.
+  pose proof (comp_mono _ _ _ _ _ _ Ec) as M1. pose proof (comp_mono _ _ _ _ _ _ Ec0) as M2.
+  assert (Hkl : forall i, kept ce i -> i < nv) by (intros; eapply kept_lt; eauto).
+  pose proof (conj S1 S2) as HS. destruct (stable_sub _ _ _ _ _ _ _ _ _ HS) as [S1' S2'].
+  assert (HJ0 : Jstd ce rho n0 nv n2 P vs n) by (split; auto).
+  set (p1 := pc + 3 + length ca) in *.
+  uncons Hat A0. uncons Hat A1. uncons Hat A2. replace (S (S (S pc))) with (pc + 3) in Hat by lia.
+  destruct (code_at_app _ _ _ _ Hat) as [Hata Hat2]. fold p1 in Hat2.
+  change (Idup :: Ijumpifnot (p1 + 5) :: Ipush (VBool true) :: Istore (V nv) :: Ijump (p1 + 11 + length cb) ::
+          Ipop :: Ibacktrack :: Iload (V nv) :: Ijumpifnot (p1 + 11) :: Ibacktrack :: Ipop :: cb)
+    with ([Idup; Ijumpifnot (p1 + 5); Ipush (VBool true); Istore (V nv); Ijump (p1 + 11 + length cb);
+           Ipop; Ibacktrack; Iload (V nv); Ijumpifnot (p1 + 11); Ibacktrack; Ipop] ++ cb) in Hat2.
+  destruct (code_at_app _ _ _ _ Hat2) as [Hmid Hatb]. simpl length in Hatb.
+  uncons Hmid B0. uncons Hmid B1. uncons Hmid B2. uncons Hmid B3. uncons Hmid B4. uncons Hmid B5.
+  uncons Hmid B6. uncons Hmid B7. uncons Hmid B8. uncons Hmid B9.
+  subst c.
+  match goal with |- context [ctx_of (pc + length ?l)] =>
+    assert (Epc : pc + length l = p1 + 11 + length cb)
+      by (simpl; repeat (rewrite app_length; simpl); unfold p1; lia); rewrite Epc in * end.
+  set (pend := p1 + 11 + length cb) in *.
+  set (c := ctx_of pend st fk nv n2 K ce n0).
+  destruct (update_some vs nv (SV (VBool false))) as [vs1 U]; [lia|].
+  destruct (update_spec _ _ _ _ U) as (UL & UN & UO).
+  set (fx := F rpc (S (S pc)) (SV v :: st)).
+  assert (HJ1 : Jstd ce rho n0 nv n2 P vs1 n) by (eapply Jstd_update; [exact S1'|exact HJ0|exact U|lia]).
+  eapply G_pre; [one st_push; one st_store; one st_fork; apply steps_refl
+                |eapply chg_update; [exact U|simpl; lia]|simpl; lia|].
+  replace (S (S (S pc))) with (pc + 3) by lia.
+  pose proof (impl_inner qa IHa ce (pc + 3) (S nv) ca n1 Ec Hata rho v st (fx :: fk) vs1 n n0) as HA. cbv zeta in HA.
+  pose proof HJ1 as (E1 & Hn1 & Hl1 & HP1).
+  specialize (HA ltac:(eapply envOK_nv; eauto) Hn ltac:(lia)). fold p1 in HA.
+  set (fb := fun (g : bool) (w : jv) => if truthy w then ([w], @None exn, true) else ([], None, g)).
+  set (Jg := fun (g : bool) (a : list sv) => nth_error a nv = Some (SV (VBool g))).
+  pose proof (fold_std p1 st (S nv) n1 pend st (fx :: fk) nv n2 K ce n0 rho P bool Jg fb (fun i => i = nv) ce
+                HS ltac:(lia) ltac:(lia) Hkl HK1 HK2) as HF. cbv zeta in HF.
+  destruct (den qa rho v) as [ws fin] eqn:Ed. cbn [fst snd] in HA.
+  set (ts := filter truthy ws).
+  set (gf := match ts with [] => false | _ => true end).
+  assert (HG : G (ctx_of pend st (fx :: fk) nv n2 K ce n0) ts
+                 (Tend (ctx_of pend st (fx :: fk) nv n2 K ce n0) fin (fun a m => Jstd ce rho n0 nv n2 P a m /\ Jg gf a))
+                 (N (pc + 3) (SV v :: st) (fx :: fk) vs1 n)).
+  { refine (HF _ eq_refl _ _ ws false _ fin ts None gf HA _ (foldgen_alt ws false)).
+    - intros i ->. lia.
+    - intros g a b Hg C. unfold Jg in *. rewrite <- Hg. symmetry. apply C. lia.
+    - intros w g fk' vs' n' os' x' g' [Hj Hg] Efb. unfold fb in Efb. pose proof Hj as (E' & Hn' & Hl' & Hp').
+      eapply G_pre; [one st_dup; one st_jumpifnot; apply steps_refl|apply chg_refl|simpl; lia|].
+      destruct (truthy w); inversion Efb; subst os' x' g'.
+      + destruct (update_some vs' nv (SV (VBool true))) as [vs'' U']; [lia|].
+        destruct (update_spec _ _ _ _ U') as (UL' & UN' & UO').
+        eapply G_single with (vs3 := vs'') (n3 := n');
+          [one st_push; one st_store; one st_jump; apply steps_refl|eapply chg_update; [exact U'|reflexivity]|simpl; lia|].
+        intros vs2 n2' Kp L2. split.
+        * assert (Hj'' : Jstd ce rho n0 nv n2 P vs'' n') by (eapply Jstd_update; [exact S1'|exact Hj|exact U'|lia]).
+          refine (Jstd_stable_cx _ _ _ _ _ _ _ K S1' S2' HK2 _ _ _ _ _ Hj'' Kp L2). reflexivity.
+        * unfold Jg. rewrite <- UN'. symmetry. apply Kp. simpl. apply HK1. lia.
+      + eapply G_end; [replace (p1 + 5) with (S (S (S (S (S p1))))) by lia; one st_pop; one st_backtrack; apply steps_refl
+                      |apply chg_refl|simpl; lia|reflexivity|split; auto].
+    - split; [exact HJ1|exact UN]. }
+  (* from the base with the fork of // to the base below it *)
+  cbn [Den.den]. rewrite Ed. fold ts.
+  set (Tfin := fun s1 : state =>
+     match fin with
+     | Some x => Tend c (Some x) P s1
+     | None => match ts with
+               | [] => G c (fst (den qb rho v)) (Tend c (snd (den qb rho v)) P) s1
+               | _ => Tend c None P s1
+               end
+     end).
+  assert (HG2 : G c ts Tfin (N (pc + 3) (SV v :: st) (fx :: fk) vs1 n)).
+  { refine (G_ctx nt code rpc (ctx_of pend st (fx :: fk) nv n2 K ce n0) c [fx] (fun _ _ => True) _ _
+              eq_refl eq_refl eq_refl _ _ (le_n _) _ _ _ _ _ _ I HG); auto.
+    - intros x vs' n' _ _. exists vs', n'. split; [eapply fork_transparent; eauto|]. split; [apply chg_refl|lia].
+    - intros s1 _ (e & vs4 & n4 & St4 & Ch4 & Le4 & HE4 & ((E4 & Hn4 & Hl4 & HP4) & Hg4)). simpl in St4, Ch4, HE4.
+      unfold Tfin. destruct fin as [x|]; simpl in HE4.
+      + destruct (encR_some _ _ _ _ HE4) as (y & ->).
+        exists (Some y), vs4, n4. split; [eapply steps_trans; [exact St4|eapply fork_transparent; eauto]|].
+        split; [exact Ch4|]. split; [exact Le4|]. split; [exact HE4|exact HP4].
+      + subst e. unfold Jg, gf in Hg4.
+        assert (StL : forall g, nth_error vs4 nv = Some (SV (VBool g)) ->
+                  steps s1 (N (if g then S (S (S (S (S (S (S (S (S p1)))))))) else p1 + 11) (SV v :: st) fk vs4 n4)).
+        { intros g Hg. eapply steps_trans; [exact St4|]. one st_popfork. one bt_fork_none.
+          replace (p1 + 7) with (S (S (S (S (S (S (S p1))))))) by lia. one st_load.
+          eapply steps_step; [eapply (st_jumpifnot nt code rpc _ _ (VBool g)); eauto|]. destruct g; apply steps_refl. }
+        destruct ts as [|t0 ts'].
+        * eapply G_pre; [exact (StL false Hg4)|exact Ch4|exact Le4|].
+          replace (S (S (S (S (S (S (S (S (S (S (S p1))))))))))) with (p1 + 11) in Hatb by lia.
+          pose proof (IHb ce (p1 + 11) n1 cb n2 Ec0 Hatb rho v st fk vs4 n4 n0 K P) as HB. cbv zeta in HB.
+          refine (G_sub nt code rpc (ctx_of pend st fk n1 n2 K ce n0) c _ _ eq_refl eq_refl eq_refl _ _ (le_n _) _ _ _ (HB _ _ _ _ _ _ _)); auto.
+          -- simpl; intros; lia.
+          -- intros s2. apply Tend_sub; auto. simpl; intros; lia.
+          -- eapply envOK_nv; eauto. lia.
+          -- intros; apply HK1; lia.
+          -- split; [intros p q m m' Hp C Hm; eapply S1'; eauto; simpl; intros; lia|intros p q m m' Hp C Hm; eapply S2'; eauto].
+        * exists None, vs4, n4. split; [|split; [exact Ch4|split; [exact Le4|split; [reflexivity|exact HP4]]]].
+          eapply steps_trans; [exact (StL true Hg4)|]. one st_backtrack. apply steps_refl. }
+  unfold Tfin in HG2. destruct fin as [x|]; cbn [fst snd]; [exact HG2|].
+  destruct ts as [|t0 ts'] eqn:Ets; cbn [fst snd]; [|exact HG2].
+  change (G c ([] ++ fst (den qb rho v)) (Tend c (snd (den qb rho v)) P) (N (pc + 3) (SV v :: st) (fx :: fk) vs1 n)).
+  apply G_app. exact HG2.
+Qed.
+
+(* bind_std with an additional store invariant that the bodies may rely on *)
+Lemma bind_inv : forall (f : jv -> result) (Jg : list sv -> Prop) pc1 st1 lo1 hi1 pc' st fk nv nv' K ce n0 rho (P : list sv -> nat -> Prop)
+   (ownb : nat -> Prop) (ceb : cenv),
+   let c := ctx_of pc' st fk nv nv' K ce n0 in
+   let c1 := ctx_of pc1 st1 fk lo1 hi1 (fun i => lo1 <= i < hi1 \/ kept ce i) ce n0 in
+   stable c P -> nv <= lo1 -> hi1 <= nv' ->
+   (forall i, kept ce i -> i < nv) -> (forall i, nv <= i < nv' -> K i) -> (forall i, kept ce i -> K i) ->
+   (forall i, ownb i -> nv <= i < nv' /\ ~ (lo1 <= i < hi1)) ->
+   ce_lbls ceb = ce_lbls ce ->
+   (forall a b, Jg a -> chg (fun i => lo1 <= i < hi1) a b -> Jg b) ->
+   (forall w fk' vs n, Jstd ce rho n0 nv nv' P vs n -> Jg vs ->
+        G (cbody c ownb ceb fk') (fst (f w))
+          (Tend (cbody c ownb ceb fk') (snd (f w)) (fun a m => Jstd ce rho n0 nv nv' P a m /\ Jg a))
+          (N pc1 (SV w :: st1) (fk' ++ fk) vs n)) ->
+   forall r s, G c1 (fst r) (Tend c1 (snd r) (fun _ _ => True)) s -> Jstd ce rho n0 nv nv' P (vars_of s) (lbl_of s) ->
+     Jg (vars_of s) ->
+     G c (fst (bind r f)) (Tend c (snd (bind r f)) (fun a m => P a m /\ Jg a)) s.
+Proof.
+  intros f Jg pc1 st1 lo1 hi1 pc' st fk nv nv' K ce n0 rho P ownb ceb c c1 HS H1 H2 Hkl HK1 HK2 Hob Hlb HJg Hbody r s HA HJ HJg0.
+  set (fb := fun (_ : unit) w => (fst (f w), snd (f w), tt)).
+  unfold bind.
+  pose proof (foldgen_bind f (fst r)) as Ef. fold fb in Ef.
+  destruct (bind_list (fst r) f) as [os x] eqn:Eb. cbn [fst snd] in Ef.
+  pose proof (fold_std pc1 st1 lo1 hi1 pc' st fk nv nv' K ce n0 rho P
+                unit (fun _ => Jg) fb ownb ceb HS H1 H2 Hkl HK1 HK2 Hob Hlb) as HF.
+  cbv zeta in HF.
+  assert (HG' : G c os (Tend c (match x with Some e => Some e | None => snd r end)
+                          (fun a m => Jstd ce rho n0 nv nv' P a m /\ Jg a)) s).
+  { refine (HF (fun g a b => HJg a b) _ (fst r) tt s (snd r) os x tt HA _ Ef); auto.
+    intros w g fk' vs' n' os' x' g' [Hj Hg] Efb. unfold fb in Efb. inversion Efb; subst os' x' g'.
+      apply Hbody; auto. }
+  destruct x as [e|]; (eapply G_impl; [|exact HG']); intros s0; apply Tend_weaken;
+    intros p m ((_ & _ & _ & Hp) & Hg); auto.
+Qed.
+
+(* an inlined operator argument: pushes its outputs on the stack *)
+Lemma G_sarg : forall arg k carg, comp_sarg (V k) arg = Some carg ->
+  forall cx pcA v (P : list sv -> nat -> Prop) vs n, code_at pcA carg -> g_pc cx = pcA + length carg ->
+  nth_error vs k = Some (SV v) ->
+  (forall a b m m', P a m -> keepS cx a b -> m <= m' -> P b m') -> P vs n ->
+  G cx (fst (den_sarg nt arg v)) (Tend cx (snd (den_sarg nt arg v)) P) (N pcA (g_st cx) (g_base cx) vs n).
+Proof.
+  intros arg k carg Hc cx pcA v P vs n Hat Hpc Hk HP Hp.
+  destruct arg; simpl in Hc; try (destruct (simple_const c); [|discriminate]); inversion Hc; subst carg; clear Hc;
+    simpl length in Hpc; cbn [den_sarg].
+  - uncons Hat A0. cbn [fst snd].
+    eapply G_single; [rewrite Hpc; replace (pcA + 1) with (S pcA) by lia; one st_load; apply steps_refl
+                     |apply chg_refl|simpl; lia|intros; eapply HP; eauto].
+  - uncons Hat A0. cbn [fst snd].
+    eapply G_single; [rewrite Hpc; replace (pcA + 1) with (S pcA) by lia; one st_push; apply steps_refl
+                     |apply chg_refl|simpl; lia|intros; eapply HP; eauto].
+  - uncons Hat A0. uncons Hat A1.
+    eapply G_pre; [one st_load; apply steps_refl|apply chg_refl|simpl; lia|].
+    apply G_index; auto. rewrite Hpc. lia.
+  - uncons Hat A0. uncons Hat A1.
+    eapply G_pre; [one st_load; apply steps_refl|apply chg_refl|simpl; lia|].
+    apply G_iter; auto. rewrite Hpc. lia.
+  - uncons Hat A0. uncons Hat A1. cbn [fst snd].
+    eapply G_end; [one st_load; one st_backtrack; apply steps_refl|apply chg_refl|simpl; lia|reflexivity|auto].
+  - uncons Hat A0. uncons Hat A1.
+    destruct (n_fn0 nt f v) as [w|e] eqn:E; cbn [of_sum fst snd].
+    + eapply G_single; [rewrite Hpc; replace (pcA + 2) with (S (S pcA)) by lia; one st_load; one st_call0_ok; apply steps_refl
+                       |apply chg_refl|simpl; lia|intros; eapply HP; eauto].
+    + eapply G_end; [one st_load; one st_call0_err; apply steps_refl|apply chg_refl|simpl; lia|reflexivity|auto].
+Qed.
+
+Lemma impl_binop : forall o a b, Impl (QBinop o a b).
+Proof.
+  intros o a b. impl_intro. simpl in Hc.
+  destruct (comp_sarg (V nv) b) as [cb|] eqn:Eb; [|discriminate].
+  destruct (comp_sarg (V nv) a) as [ca|] eqn:Ea; [|discriminate].
+  inversion Hc; subst cq nv'. clear Hc.
+  assert (Hkl : forall i, kept ce i -> i < nv) by (intros; eapply kept_lt; eauto).
+  pose proof (conj S1 S2) as HS. destruct (stable_sub _ _ _ _ _ _ _ _ _ HS) as [S1' S2'].
+  assert (HJ0 : Jstd ce rho n0 nv (S nv) P vs n) by (split; auto).
+  uncons Hat A0. destruct (code_at_app _ _ _ _ Hat) as [Hatb Hat2].
+  destruct (code_at_app _ _ _ _ Hat2) as [Hata Hat3]. uncons Hat3 A1. uncons Hat3 A2.
+  set (pA := S pc + length cb) in *. set (pL := pA + length ca) in *.
+  assert (Epc : pc + length (Istore (V nv) :: cb ++ ca ++ [Iload (V nv); Icall (NF2 o)]) = S (S pL)).
+  { simpl. rewrite !app_length. simpl. unfold pL, pA. lia. }
+  subst c. rewrite Epc in *.
+  set (c := ctx_of (S (S pL)) st fk nv (S nv) K ce n0).
+  destruct (update_some vs nv (SV v)) as [vs1 U]; [lia|].
+  destruct (update_spec _ _ _ _ U) as (UL & UN & UO).
+  assert (HJ1 : Jstd ce rho n0 nv (S nv) P vs1 n) by (eapply Jstd_update; [exact S1'|exact HJ0|exact U|lia]).
+  eapply G_pre; [one st_store; apply steps_refl|eapply chg_update; [exact U|simpl; lia]|simpl; lia|].
+  set (Jg := fun a : list sv => nth_error a nv = Some (SV v)).
+  set (P' := fun a m => Jstd ce rho n0 nv (S nv) P a m /\ Jg a).
+  assert (HP'st : stable (ctx_of (S (S pL)) st fk (S nv) (S nv) K ce n0) P').
+  { split.
+    - intros p q m m' [Hq Hg] C Hm. split.
+      + refine (Jstd_chg _ _ _ _ _ _ _ _ _ _ _ (fun x y k k' => S1' _ x y k k' _) _ Hq C Hm); simpl; intros; lia.
+      + unfold Jg in *. rewrite <- Hg. symmetry. apply C. simpl. lia.
+    - intros p q m m' [Hq Hg] C Hm. split.
+      + refine (Jstd_stable_cx _ _ _ _ _ _ _ K S1' S2' HK2 _ _ _ _ _ Hq C Hm). reflexivity.
+      + unfold Jg in *. rewrite <- Hg. symmetry. apply C. simpl. apply HK1. lia. }
+  cbn [Den.den].
+  set (f := fun r => bind (den_sarg nt a v) (fun l => of_sum (n_fn2 nt o v l r))).
+  assert (HG : G c (fst (bind (den_sarg nt b v) f)) (Tend c (snd (bind (den_sarg nt b v) f)) (fun a m => P a m /\ Jg a))
+                 (N (S pc) st fk vs1 n)).
+  { refine (bind_inv f Jg pA st (S nv) (S nv) (S (S pL)) st fk nv (S nv) K ce n0 rho P (fun i => S nv <= i < S nv) ce
+              HS ltac:(lia) (le_n _) Hkl HK1 HK2 _ eq_refl _ _ (den_sarg nt b v) (N (S pc) st fk vs1 n) _ HJ1 UN).
+    - intros i Hi. lia.
+    - intros p q Hg C. unfold Jg in *. rewrite <- Hg. symmetry. apply C. lia.
+    - (* for every output r of the right operand: the left operand, then the call *)
+      intros r fk' vs' n' Hj Hg. pose proof Hj as (E' & Hn' & Hl' & Hp').
+      assert (HJ' : Jstd ce rho n0 (S nv) (S nv) P' vs' n').
+      { split; [eapply envOK_nv; eauto|]. split; [auto|]. split; [lia|]. split; auto. }
+      pose proof (bind_inv (fun l => of_sum (n_fn2 nt o v l r)) Jg pL (SV r :: st) (S nv) (S nv) (S (S pL)) st (fk' ++ fk)
+                    (S nv) (S nv) K ce n0 rho P' (fun i => S nv <= i < S nv) ce
+                    HP'st (le_n _) (le_n _)) as HI. cbv zeta in HI.
+      eapply G_impl; [|refine (HI _ _ HK2 _ eq_refl _ _ (den_sarg nt a v) (N pA (SV r :: st) (fk' ++ fk) vs' n') _ HJ' Hg)].
+      + intros s0. apply Tend_weaken. intros p m [[Hq1 Hq2] _]. split; auto.
+      + intros i Hi. apply Hkl in Hi. lia.
+      + intros i Hi. lia.
+      + intros i Hi. lia.
+      + intros p q Hg' C. unfold Jg in *. rewrite <- Hg'. symmetry. apply C. lia.
+      + intros l fk'' vs'' n'' Hj'' Hg''.
+        destruct (n_fn2 nt o v l r) as [w|e] eqn:E; cbn [of_sum fst snd].
+        * eapply G_single; [simpl g_pc; simpl g_st; simpl g_base; one st_load; one st_call2_ok; apply steps_refl
+                           |apply chg_refl|simpl; lia|].
+          intros vs2 n2 Kp L2. split.
+          -- destruct Hj'' as (E2 & Hn2 & Hl2 & Hp2). split; [eapply envOK_keep; eauto|]. split; [lia|].
+             split; [destruct Kp; lia|]. destruct HP'st as [_ St2]. eapply St2; eauto.
+          -- unfold Jg in *. rewrite <- Hg''. symmetry. apply Kp. simpl. apply HK1. lia.
+        * eapply G_end; [one st_load; one st_call2_err; apply steps_refl|apply chg_refl|simpl; lia|reflexivity|auto].
+      + apply (G_sarg a nv ca Ea (ctx_of pL (SV r :: st) (fk' ++ fk) (S nv) (S nv) (fun i => S nv <= i < S nv \/ kept ce i) ce n0)
+                 pA v (fun _ _ => True) vs' n'); auto.
+    - apply (G_sarg b nv cb Eb (ctx_of pA st fk (S nv) (S nv) (fun i => S nv <= i < S nv \/ kept ce i) ce n0)
+               (S pc) v (fun _ _ => True) vs1 n); auto. }
+  eapply G_impl; [|exact HG]. intros s0. apply Tend_weaken. intros p m [Hp _]. exact Hp.
+Qed.
+
+(* G_fold with the invariant J = Jstd /\ Jg, for contexts given by arbitrary own sets *)
+Lemma fold_gen : forall (c1 c : gctx) rho nvE hi (P : list sv -> nat -> Prop) (X : Type) (Jg : X -> list sv -> Prop)
+   (fb : X -> jv -> list jv * option exn * X) (ownb : nat -> Prop) (ceb : cenv),
+   let J := fun g a m => Jstd (g_ce c) rho (g_n0 c) nvE hi P a m /\ Jg g a in
+   g_base c1 = g_base c -> g_ce c1 = g_ce c -> g_n0 c1 = g_n0 c ->
+   (forall i, g_own c1 i -> g_own c i) -> (forall i, ownb i -> g_own c i) ->
+   (forall i, g_keep c1 i -> g_keep c i /\ ~ ownb i) ->
+   (forall i, kept (g_ce c) i -> ~ g_own c i) ->
+   ce_lbls ceb = ce_lbls (g_ce c) ->
+   (forall a b m m', P a m -> chg (g_own c1) a b -> m <= m' -> P b m') ->
+   (forall g a b, Jg g a -> chg (g_own c1) a b -> Jg g b) ->
+   (forall w g fk' vs n os x g', J g vs n -> fb g w = (os, x, g') ->
+        G (cbody c ownb ceb fk') os (Tend (cbody c ownb ceb fk') x (J g')) (N (g_pc c1) (SV w :: g_st c1) (fk' ++ g_base c) vs n)) ->
+   forall ws1 g s fin1 os x g',
+     G c1 ws1 (Tend c1 fin1 (fun _ _ => True)) s -> J g (vars_of s) (lbl_of s) -> foldgen X fb ws1 g = (os, x, g') ->
+     G c os (Tend c (match x with Some e => Some e | None => fin1 end) (J g')) s.
+Proof.
+  intros c1 c rho nvE hi P X Jg fb ownb ceb J Hb Hce Hn0 Ho1 Hob Hk1 Hkept Hlb HP HJg Hbody ws1 g s fin1 os x g' HA HJ Ef.
+  refine (G_fold nt code rpc c1 c X J fb ownb ceb Hb Hce Hn0 Ho1 Hob Hk1 Hkept Hlb _ _ Hbody ws1 g s fin1 os x g' HA HJ Ef).
+  - intros g0 p q m m' [(E & Hn & Hl & Hp) Hg] C Hm. split; [|eapply HJg; eauto].
+    split; [|split; [lia|split; [destruct C; lia|eapply HP; eauto]]].
+    eapply envOK_same; [exact E|]. intros k Hk. apply C. intro Hc1. apply (Hkept k Hk). auto.
+  - intros g0 p m [(E & _) _]. eapply envOK_lblOK; eauto.
+Qed.
+
+Lemma Jstd_update_gen : forall ce rho n0 nvE hi (P : list sv -> nat -> Prop) vs n k x vs',
+  Jstd ce rho n0 nvE hi P vs n -> update vs k x = Some vs' -> ~ kept ce k -> P vs' n -> Jstd ce rho n0 nvE hi P vs' n.
+Proof.
+  intros ce rho n0 nvE hi P vs n k x vs' (E & Hn & Hl & Hp) U Hk Hp'.
+  destruct (update_spec _ _ _ _ U) as (UL & UN & UO).
+  split; [|split; [auto|split; [lia|auto]]].
+  eapply envOK_same; [exact E|]. intros j Hj. symmetry. apply UO. intro; subst; auto.
+Qed.
+
+Lemma last_cons_default : forall (us : list jv) a d, last (a :: us) d = last us a.
+Proof.
+  induction us; intros a0 d; [reflexivity|].
+  change (last (a0 :: a :: us) d) with (last (a :: us) d). rewrite (IHus a d).
+  change (last (a :: us) a0) with (match us with [] => a | _ => last us a0 end).
+  destruct us; [reflexivity|]. rewrite <- (IHus a a0). reflexivity.
+Qed.
+
+Lemma foldgen_last : forall us a, foldgen jv (fun (_ : jv) u => ([], None, u)) us a = ([], None, last us a).
+Proof.
+  induction us; intros a0; [reflexivity|].
+  change (foldgen jv (fun (_ : jv) u => ([], None, u)) (a :: us) a0) with
+    (let '(os', x', g'') := foldgen jv (fun (_ : jv) u => (@nil jv, @None exn, u)) us a in (@nil jv ++ os', x', g'')).
+  rewrite IHus. simpl app. rewrite last_cons_default. reflexivity.
+Qed.
+
+Lemma reduce_foldgen : forall (updf : jv -> jv -> result) ws a,
+  exists g, foldgen jv (fun a w => ([], snd (updf w a), last_or (fst (updf w a)) a)) ws a =
+              ([], match reduce_fold updf ws a with inr e => Some e | inl _ => None end, g) /\
+            (forall acc, reduce_fold updf ws a = inl acc -> g = acc).
+Proof.
+  intros updf. induction ws; intros a0; simpl.
+  - exists a0. split; auto. intros acc H. inversion H; auto.
+  - destruct (updf a a0) as [us [e|]] eqn:Eu; cbn [fst snd].
+    + exists (last_or us a0). split; auto. intros acc H. discriminate.
+    + destruct (IHws (last_or us a0)) as (g & Hf & Hg). rewrite Hf. exists g. split; auto.
+Qed.
+
+(* the update of reduce/foreach: store $x, load the accumulator, run the update as a generator *)
+Lemma upd_inner : forall qu, Impl qu -> forall ce x n2 p2 cu n3,
+  comp qu (add_var ce x n2) (S (S p2)) (S n2) = Some (cu, n3) -> code_at (S (S p2)) cu ->
+  forall accs, at_ p2 (Istore (V n2)) -> at_ (S p2) (Iload (V accs)) ->
+  forall rho w a st fk vs n n0 nv, accs < n2 -> nv <= n2 ->
+  envOK ce rho vs n0 nv -> n0 <= n -> n3 <= length vs -> nth_error vs accs = Some (SV a) ->
+  exists vs1, update vs n2 (SV w) = Some vs1 /\
+  steps (N p2 (SV w :: st) fk vs n) (N (S (S p2)) (SV a :: st) fk vs1 n) /\
+  envOK (add_var ce x n2) ((x, w) :: rho) vs1 n0 (S n2) /\ nth_error vs1 accs = Some (SV a) /\
+  let c1 := ctx_of (S (S p2) + length cu) st fk (S n2) n3 (fun i => S n2 <= i < n3 \/ kept (add_var ce x n2) i) (add_var ce x n2) n0 in
+  G c1 (fst (den qu ((x, w) :: rho) a)) (Tend c1 (snd (den qu ((x, w) :: rho) a)) (fun _ _ => True))
+               (N (S (S p2)) (SV a :: st) fk vs1 n).
+Proof.
+  intros qu IHu ce x n2 p2 cu n3 Eu Hatu accs A0 A1 rho w a st fk vs n n0 nv Hacc Hnv HE Hn Hl Ha.
+  pose proof (comp_mono _ _ _ _ _ _ Eu) as M.
+  destruct (update_some vs n2 (SV w)) as [vs1 U]; [lia|]. exists vs1. split; [exact U|].
+  destruct (update_spec _ _ _ _ U) as (UL & UN & UO).
+  assert (Ha1 : nth_error vs1 accs = Some (SV a)) by (rewrite UO; [auto|lia]).
+  assert (HE1 : envOK (add_var ce x n2) ((x, w) :: rho) vs1 n0 (S n2)).
+  { apply envOK_add_var; auto.
+    eapply envOK_nv; [|instantiate (1 := nv); lia].
+    eapply envOK_same; [exact HE|]. intros k Hk. symmetry. apply UO.
+    pose proof (kept_lt _ _ _ _ _ _ HE Hk). lia. }
+  split; [one st_store; one st_load; apply steps_refl|]. split; [exact HE1|]. split; [exact Ha1|].
+  intros c1.
+  apply (impl_inner qu IHu (add_var ce x n2) (S (S p2)) (S n2) cu n3 Eu Hatu ((x, w) :: rho) a st fk vs1 n n0); auto; try lia.
+Qed.
+
+(* the update phase of reduce/foreach for one source output w: store $x; load acc; update; then, for every
+   output u of the update, a body that maintains the accumulator (ghost) in slot nv *)
+Lemma upd_level : forall qu, Impl qu -> forall ce x n2 p2 cu n3,
+  comp qu (add_var ce x n2) (S (S p2)) (S n2) = Some (cu, n3) -> code_at (S (S p2)) cu ->
+  forall nv, at_ p2 (Istore (V n2)) -> at_ (S p2) (Iload (V nv)) ->
+  forall rho w st fk K n0 hi (P : list sv -> nat -> Prop) pcx (fbC : jv -> jv -> list jv * option exn * jv) (ownbC : nat -> Prop),
+  let ce3 := add_var ce x n2 in
+  let rho3 := (x, w) :: rho in
+  let P3 := Jstd ce rho n0 nv hi P in
+  let cC := {| g_pc := pcx; g_st := st; g_base := fk; g_own := fun i => i = nv \/ S n2 <= i < hi; g_keep := K; g_ce := ce3; g_n0 := n0 |} in
+  let cOut := {| g_pc := pcx; g_st := st; g_base := fk; g_own := fun i => i = nv \/ n2 <= i < hi; g_keep := K; g_ce := ce; g_n0 := n0 |} in
+  let JC := fun g a m => Jstd ce3 rho3 n0 (S n2) hi P3 a m /\ nth_error a nv = Some (SV g) in
+  nv < n2 -> n3 <= hi ->
+  (forall i, nv <= i < hi -> K i) -> (forall i, kept ce i -> K i) -> (forall i, kept ce i -> i < nv) ->
+  (forall (O : nat -> Prop) x y k k', (forall i, O i -> nv <= i < hi) -> P x k -> chg O x y -> k <= k' -> P y k') ->
+  (forall pc'' st' fk' lo hi ce' n0' x y k k', P x k -> keepS (ctx_of pc'' st' fk' lo hi K ce' n0') x y -> k <= k' -> P y k') ->
+  (forall i, ownbC i -> i = nv \/ n3 <= i < hi) ->
+  (forall u g fk3 vs n os xx g', JC g vs n -> fbC g u = (os, xx, g') ->
+     G (cbody cC ownbC ce3 fk3) os (Tend (cbody cC ownbC ce3 fk3) xx (JC g'))
+       (N (S (S p2) + length cu) (SV u :: st) (fk3 ++ fk) vs n)) ->
+  forall a vs n, Jstd ce rho n0 nv hi P vs n -> nth_error vs nv = Some (SV a) ->
+  forall os xx g', foldgen jv fbC (fst (den qu rho3 a)) a = (os, xx, g') ->
+  G cOut os (Tend cOut (match xx with Some e => Some e | None => snd (den qu rho3 a) end)
+                (fun a' m => Jstd ce rho n0 nv hi P a' m /\ nth_error a' nv = Some (SV g')))
+    (N p2 (SV w :: st) fk vs n).
+Proof.
+  intros qu IHu ce x n2 p2 cu n3 Eu Hatu nv A0 A1 rho w st fk K n0 hi P pcx fbC ownbC ce3 rho3 P3 cC cOut JC
+         Hnv Hhi HK1 HK2 Hkl S1' S2' HobC HbodyC a vs n Hj Ha os xx g' Ef.
+  pose proof (comp_mono _ _ _ _ _ _ Eu) as M. pose proof Hj as (E & Hn & Hl & Hp).
+  destruct (upd_inner qu IHu ce x n2 p2 cu n3 Eu Hatu nv A0 A1 rho w a st fk vs n n0 nv Hnv ltac:(lia) E Hn ltac:(lia) Ha)
+    as (vs1 & U & St1 & HE1 & Ha1 & HU). cbv zeta in HU.
+  destruct (update_spec _ _ _ _ U) as (UL & UN & UO).
+  assert (HP3 : P3 vs1 n) by (unfold P3; eapply Jstd_update; [exact S1'|exact Hj|exact U|lia]).
+  assert (Hk3 : forall i, kept ce3 i -> i = n2 \/ kept ce i) by (intros i Hi; apply kept_add_var in Hi; auto).
+  assert (HG : G cC os (Tend cC (match xx with Some e => Some e | None => snd (den qu rho3 a) end) (JC g'))
+                 (N (S (S p2)) (SV a :: st) fk vs1 n)).
+  { refine (fold_gen (ctx_of (S (S p2) + length cu) st fk (S n2) n3 (fun i => S n2 <= i < n3 \/ kept ce3 i) ce3 n0)
+              cC rho3 (S n2) hi P3 jv (fun g a' => nth_error a' nv = Some (SV g)) fbC ownbC ce3
+              eq_refl eq_refl eq_refl _ _ _ _ eq_refl _ _ HbodyC _ a _ _ os xx g' HU _ Ef).
+    - simpl; intros; lia.
+    - simpl. intros i Hi. apply HobC in Hi. lia.
+    - simpl. intros i [Hi|Hi].
+      + split; [apply HK1; lia|]. intro Ho. apply HobC in Ho. lia.
+      + destruct (Hk3 i Hi) as [->|Hi']; (split; [|intro Ho; apply HobC in Ho]).
+        * apply HK1; lia. * lia. * apply HK2; auto. * apply Hkl in Hi'. lia.
+    - simpl. intros i Hi. destruct (Hk3 i Hi) as [->|Hi']; [lia|apply Hkl in Hi'; lia].
+    - intros p q m m' Hq C Hm. unfold P3 in *.
+      refine (Jstd_chg _ _ _ _ _ _ _ _ _ _ _ (fun x y k k' => S1' _ x y k k' _) _ Hq C Hm); simpl; intros; lia.
+    - intros g p q Hg C. rewrite <- Hg. symmetry. apply C. simpl. lia.
+    - simpl. split; [|exact Ha1]. split; [exact HE1|]. split; [exact Hn|]. split; [lia|exact HP3]. }
+  eapply G_pre; [exact St1|eapply chg_update; [exact U|simpl; lia]|simpl; lia|].
+  refine (G_sub nt code rpc cC cOut _ _ eq_refl eq_refl eq_refl _ _ (le_n _) _ _ _ HG).
+  - simpl; intros; lia.
+  - intros p q Kp. exact Kp.
+  - intros s0 (e & vs4 & n4 & St4 & Ch4 & Le4 & HE4 & ((E4 & Hn4 & Hl4 & HP4) & Hg4)).
+    exists e, vs4, n4. split; [exact St4|]. split; [eapply chg_mono; [|exact Ch4]; simpl; intros; lia|].
+    split; [exact Le4|]. split; [eapply encR_lbls; [|exact HE4]; reflexivity|]. split; [exact HP4|exact Hg4].
+Qed.
+
+Lemma impl_reduce : forall qs x qi qu, Impl qs -> Impl qi -> Impl qu -> Impl (QReduce qs x qi qu).
+Proof.
+  intros qs x qi qu IHs IHi IHu. impl_intro. simpl in Hc. dcomp. inversion Hc; subst cq nv'. clear Hc.
+  rename l into ci, l0 into cs, l1 into cu.
+  pose proof (comp_mono _ _ _ _ _ _ Ec) as M1. pose proof (comp_mono _ _ _ _ _ _ Ec0) as M2.
+  pose proof (comp_mono _ _ _ _ _ _ Ec1) as M3.
+  assert (Hkl : forall i, kept ce i -> i < nv) by (intros; eapply kept_lt; eauto).
+  pose proof (conj S1 S2) as HS. destruct (stable_sub _ _ _ _ _ _ _ _ _ HS) as [S1' S2'].
+  assert (HJ0 : Jstd ce rho n0 nv n3 P vs n) by (split; auto).
+  set (q1 := S pc + length ci) in *.
+  replace (pc + 1 + length ci) with q1 in * by (unfold q1; lia).
+  replace (q1 + 2) with (S (S q1)) in * by lia.
+  set (q2 := S (S q1) + length cs) in *.
+  replace (q2 + 2) with (S (S q2)) in * by lia.
+  set (q3 := S (S q2) + length cu) in *.
+  replace (q3 + 2) with (S (S q3)) in * by lia.
+  uncons Hat A0. destruct (code_at_app _ _ _ _ Hat) as [Hati Hat2]. fold q1 in Hat2.
+  uncons Hat2 A1. uncons Hat2 A2. destruct (code_at_app _ _ _ _ Hat2) as [Hats Hat3]. fold q2 in Hat3.
+  uncons Hat3 A3. uncons Hat3 A4. destruct (code_at_app _ _ _ _ Hat3) as [Hatu Hat4]. fold q3 in Hat4.
+  uncons Hat4 A5. uncons Hat4 A6. uncons Hat4 A7. uncons Hat4 A8.
+  subst c.
+  match goal with |- context [ctx_of (pc + length ?l)] =>
+    assert (Epc : pc + length l = S (S (S (S q3))))
+      by (simpl; repeat (rewrite app_length; simpl); unfold q3, q2, q1; lia); rewrite Epc in * end.
+  set (pend := S (S (S (S q3)))) in *.
+  set (c := ctx_of pend st fk nv n3 K ce n0).
+  cbn [Den.den].
+  set (updf := fun w acc => den qu ((x, w) :: rho) acc).
+  match goal with |- G _ (fst (bind _ ?f)) _ _ => set (f0 := f) end.
+  set (ownb := fun i => i = nv \/ n1 <= i < n3).
+  pose proof (impl_inner qi IHi ce (S pc) (S nv) ci n1 Ec Hati rho v (SV v :: st) fk vs n n0
+                ltac:(eapply envOK_nv; eauto) Hn ltac:(lia)) as HA. cbv zeta in HA. fold q1 in HA.
+  eapply G_pre; [one st_dup; apply steps_refl|apply chg_refl|simpl; lia|].
+  refine (bind_std f0 q1 (SV v :: st) (S nv) n1 pend st fk nv n3 K ce n0 rho P ownb ce HS ltac:(lia) ltac:(lia)
+            Hkl HK1 HK2 _ eq_refl _ (den qi rho v) _ HA HJ0).
+  { intros i [->|Hi]; lia. }
+  (* one accumulator start value s0 *)
+  intros s0 fk' vs' n' Hj. pose proof Hj as (E' & Hn' & Hl' & Hp').
+  destruct (update_some vs' nv (SV s0)) as [vs1 U]; [lia|].
+  destruct (update_spec _ _ _ _ U) as (UL & UN & UO).
+  assert (HJ1 : Jstd ce rho n0 nv n3 P vs1 n') by (eapply Jstd_update; [exact S1'|exact Hj|exact U|lia]).
+  set (F0 := fk' ++ fk) in *.
+  set (fx := F rpc (S q1) (SV v :: st)).
+  eapply G_pre; [one st_store; one st_fork; apply steps_refl|eapply chg_update; [exact U|simpl; unfold ownb; lia]|simpl; lia|].
+  pose proof HJ1 as (E1 & Hn1 & Hl1 & Hp1).
+  pose proof (impl_inner qs IHs ce (S (S q1)) n1 cs n2 Ec0 Hats rho v st (fx :: F0) vs1 n' n0
+                ltac:(eapply envOK_nv; eauto; lia) Hn1 ltac:(lia)) as HB. cbv zeta in HB. fold q2 in HB.
+  set (fbB := fun a w => (@nil jv, snd (updf w a), last_or (fst (updf w a)) a)).
+  set (cB := {| g_pc := 0; g_st := st; g_base := fx :: F0; g_own := ownb; g_keep := K; g_ce := ce; g_n0 := n0 |}).
+  set (JgB := fun (g : jv) (a' : list sv) => nth_error a' nv = Some (SV g)).
+  destruct (den qs rho v) as [ws sx] eqn:Eds. cbn [fst snd] in HB.
+  destruct (reduce_foldgen updf ws s0) as (gB & EfB & HgB).
+  assert (HGB : G cB [] (Tend cB (match (match reduce_fold updf ws s0 with inr e => Some e | inl _ => None end)
+                                      with Some e => Some e | None => sx end)
+                            (fun a' m => Jstd ce rho n0 nv n3 P a' m /\ JgB gB a'))
+                  (N (S (S q1)) (SV v :: st) (fx :: F0) vs1 n')).
+  { refine (fold_gen (ctx_of q2 st (fx :: F0) n1 n2 (fun i => n1 <= i < n2 \/ kept ce i) ce n0) cB rho nv n3 P jv JgB fbB
+              (fun i => i = nv \/ n2 <= i < n3) ce eq_refl eq_refl eq_refl _ _ _ _ eq_refl _ _ _ ws s0 _ sx [] _ gB HB _ EfB).
+    - simpl. unfold ownb. intros; lia.
+    - simpl. unfold ownb. intros; lia.
+    - simpl. intros i [Hi|Hi]; split; try lia; [apply HK1; lia|apply HK2; auto|apply Hkl in Hi; lia].
+    - simpl. unfold ownb. intros i Hi. apply Hkl in Hi. lia.
+    - intros p q m m' Hq C Hm. eapply S1'; [|exact Hq|exact C|exact Hm]. simpl; intros; lia.
+    - intros g p q Hg C. unfold JgB in *. rewrite <- Hg. symmetry. apply C. simpl. lia.
+    - (* one source output w, accumulator g *)
+      intros w g fk2 vs2 m2 os2 x2 g2 [Hj2 Hg2] Efb. unfold fbB in Efb. inversion Efb; subst os2 x2 g2. clear Efb.
+      pose proof (foldgen_last (fst (updf w g)) g) as EfC.
+      refine (upd_level qu IHu ce x n2 q2 cu n3 Ec1 Hatu nv A3 A4 rho w st (fk2 ++ fx :: F0) K n0 n3 P 0
+                (fun (_ : jv) u => ([], None, u)) (fun i => i = nv) ltac:(lia) (le_n _) HK1 HK2 Hkl S1' S2' _ _
+                g vs2 m2 Hj2 Hg2 [] None _ EfC).
+      + intros i ->. auto.
+      + intros u g3 fk3 vs3 m3 os3 x3 g3' [Hj3 Hg3] Efc. inversion Efc; subst os3 x3 g3'. clear Efc.
+        pose proof Hj3 as (E3 & Hn3 & Hl3 & Hp3).
+        destruct (update_some vs3 nv (SV u)) as [vs4 U4]; [lia|].
+        destruct (update_spec _ _ _ _ U4) as (UL4 & UN4 & UO4).
+        eapply G_end; [one st_store; one st_backtrack; apply steps_refl
+                      |eapply chg_update; [exact U4|reflexivity]|simpl; lia|reflexivity|].
+        split; [|exact UN4].
+        eapply Jstd_update_gen; [exact Hj3|exact U4| |].
+        * intros Hk. apply kept_add_var in Hk. destruct Hk as [Hk|Hk]; [lia|apply Hkl in Hk; lia].
+        * eapply Jstd_update; [exact S1'|exact Hp3|exact U4|lia].
+    - split; [exact HJ1|exact UN]. }
+  (* the reduction is over: back to the fork of reduce *)
+  simpl in HGB. destruct HGB as (s' & St & Ch & Le & (e & vs4 & n4 & St4 & Ch4 & Le4 & HE4 & ((E4 & Hn4 & Hl4 & HP4) & Hg4))).
+  simpl in St4, Ch4, HE4.
+  assert (Ch' : chg ownb vs1 vs4) by (eapply chg_trans; eauto).
+  assert (HJ4 : Jstd ce rho n0 nv n3 P vs4 n4) by (split; auto).
+  unfold f0. try rewrite Eds. fold updf. cbv beta iota.
+  destruct (reduce_fold updf ws s0) as [acc|ex] eqn:Erf.
+  - destruct sx as [ex|]; simpl in HE4; cbn [fst snd].
+    + destruct (encR_some _ _ _ _ HE4) as (y & ->).
+      eapply G_end; [eapply steps_trans; [exact St|eapply steps_trans; [exact St4|eapply fork_transparent; eauto]]
+                    |exact Ch'|simpl; simpl in Le; lia|exact HE4|exact HJ4].
+    + subst e. rewrite (HgB acc eq_refl) in Hg4.
+      eapply G_single with (vs3 := vs4) (n3 := n4);
+        [eapply steps_trans; [exact St|eapply steps_trans; [exact St4|]]|exact Ch'|simpl; simpl in Le; lia|].
+      * one st_popfork. one bt_fork_none. one st_pop. one st_load. apply steps_refl.
+      * intros vs5 n5 Kp L5. refine (Jstd_stable_cx _ _ _ _ _ _ _ K S1' S2' HK2 _ _ _ _ _ HJ4 Kp L5). reflexivity.
+  - simpl in HE4. cbn [fst snd]. destruct (encR_some _ _ _ _ HE4) as (y & ->).
+    eapply G_end; [eapply steps_trans; [exact St|eapply steps_trans; [exact St4|eapply fork_transparent; eauto]]
+                  |exact Ch'|simpl; simpl in Le; lia|exact HE4|exact HJ4].
+Qed.
+
+Lemma foreach_upd_foldgen : forall (ext : jv -> result) us a,
+  foldgen jv (fun (_ : jv) u => (fst (ext u), snd (ext u), u)) us a =
+  (fst (fst (foreach_upd ext us a)), snd (fst (foreach_upd ext us a)), snd (foreach_upd ext us a)).
+Proof.
+  intros ext. induction us; intros a0; simpl; auto.
+  destruct (ext a) as [os [e|]]; cbn [fst snd]; auto.
+  rewrite IHus. destruct (foreach_upd ext us a) as [[os' x'] acc']. reflexivity.
+Qed.
+
+Definition foreach_step (updf : jv -> jv -> result) (extf : jv -> jv -> result) (a w : jv) : list jv * option exn * jv :=
+  let r := foreach_upd (extf w) (fst (updf w a)) a in
+  (fst (fst r), match snd (fst r) with Some e => Some e | None => snd (updf w a) end, snd r).
+
+Lemma foreach_foldgen : forall updf extf ws a,
+  exists g, foldgen jv (foreach_step updf extf) ws a =
+            (fst (foreach_fold updf extf ws a), snd (foreach_fold updf extf ws a), g).
+Proof.
+  intros updf extf. induction ws; intros a0.
+  - simpl. eauto.
+  - change (foldgen jv (foreach_step updf extf) (a :: ws) a0) with
+      (let '(os, x, g') := foreach_step updf extf a0 a in
+       match x with
+       | Some e => (os, Some e, g')
+       | None => let '(os', x', g'') := foldgen jv (foreach_step updf extf) ws g' in (os ++ os', x', g'')
+       end).
+    unfold foreach_step. simpl foreach_fold.
+    destruct (updf a a0) as [us ux]. cbn [fst snd].
+    destruct (foreach_upd (extf a) us a0) as [[os [e|]] acc']; cbn [fst snd].
+    + eauto.
+    + destruct ux as [e|]; cbn [fst snd]; [eauto|].
+      destruct (IHws acc') as (g & Hg). unfold foreach_step in Hg. rewrite Hg. exists g.
+      destruct (foreach_fold updf extf ws acc') as [os' x']. reflexivity.
+Qed.
+
+Lemma impl_foreach : forall qs x qi qu ext, Impl qs -> Impl qi -> Impl qu -> Popt Impl ext -> Impl (QForeach qs x qi qu ext).
+Proof.
+  intros qs x qi qu ext IHs IHi IHu IHx. impl_intro. simpl in Hc.
+  destruct (comp qi ce (S pc) (S nv)) as [[ci n1]|] eqn:Ec; [|discriminate].
+  destruct (comp qs ce (pc + 1 + length ci + 1) n1) as [[cs n2]|] eqn:Ec0; [|discriminate].
+  destruct (comp qu (add_var ce x n2) (pc + 1 + length ci + 1 + length cs + 2) (S n2)) as [[cu n3]|] eqn:Ec1; [|discriminate].
+  pose proof (comp_mono _ _ _ _ _ _ Ec) as M1. pose proof (comp_mono _ _ _ _ _ _ Ec0) as M2.
+  pose proof (comp_mono _ _ _ _ _ _ Ec1) as M3.
+  set (q1 := S pc + length ci) in *.
+  replace (pc + 1 + length ci) with q1 in * by (unfold q1; lia).
+  replace (q1 + 1) with (S q1) in * by lia.
+  set (q2 := S q1 + length cs) in *.
+  replace (q2 + 2) with (S (S q2)) in * by lia.
+  set (q3 := S (S q2) + length cu) in *.
+  replace (q3 + 2) with (S (S q3)) in * by lia.
+  set (ce3 := add_var ce x n2) in *.
+  assert (Hsh : exists cx, cq = Idup :: ci ++ Istore (V nv) :: cs ++ Istore (V n2) :: Iload (V nv) :: cu ++ Idup :: Istore (V nv) :: cx /\
+              n3 <= nv' /\
+              match ext with
+              | Some e => comp e ce3 (S (S q3)) n3 = Some (cx, nv')
+              | None => cx = [] /\ nv' = n3
+              end).
+  { destruct ext as [e|].
+    - destruct (comp e ce3 (S (S q3)) n3) as [[cx n4]|] eqn:Ex; [|discriminate]. inversion Hc; subst.
+      exists cx. split; [auto|]. split; [eapply comp_mono; eauto|auto].
+    - inversion Hc; subst. exists []. auto. }
+  destruct Hsh as (cx & -> & M4 & Hx). clear Hc.
+  assert (Hkl : forall i, kept ce i -> i < nv) by (intros; eapply kept_lt; eauto).
+  pose proof (conj S1 S2) as HS. destruct (stable_sub _ _ _ _ _ _ _ _ _ HS) as [S1' S2'].
+  assert (HJ0 : Jstd ce rho n0 nv nv' P vs n) by (split; auto).
+  uncons Hat A0. destruct (code_at_app _ _ _ _ Hat) as [Hati Hat2]. fold q1 in Hat2.
+  uncons Hat2 A1. destruct (code_at_app _ _ _ _ Hat2) as [Hats Hat3]. fold q2 in Hat3.
+  uncons Hat3 A3. uncons Hat3 A4. destruct (code_at_app _ _ _ _ Hat3) as [Hatu Hat4]. fold q3 in Hat4.
+  uncons Hat4 A5. uncons Hat4 A6. rename Hat4 into Hatx.
+  subst c.
+  match goal with |- context [ctx_of (pc + length ?l)] =>
+    assert (Epc : pc + length l = S (S q3) + length cx)
+      by (simpl; repeat (rewrite app_length; simpl); unfold q3, q2, q1; lia); rewrite Epc in * end.
+  set (pend := S (S q3) + length cx) in *.
+  set (c := ctx_of pend st fk nv nv' K ce n0).
+  cbn [Den.den].
+  set (updf := fun w acc => den qu ((x, w) :: rho) acc).
+  set (extf := fun w u => match ext with Some e => den e ((x, w) :: rho) u | None => ([u], None) end).
+  match goal with |- G _ (fst (bind _ ?f)) _ _ => set (f0 := f) end.
+  set (ownb := fun i => i = nv \/ n1 <= i < nv').
+  pose proof (impl_inner qi IHi ce (S pc) (S nv) ci n1 Ec Hati rho v (SV v :: st) fk vs n n0
+                ltac:(eapply envOK_nv; eauto) Hn ltac:(lia)) as HA. cbv zeta in HA. fold q1 in HA.
+  eapply G_pre; [one st_dup; apply steps_refl|apply chg_refl|simpl; lia|].
+  refine (bind_std f0 q1 (SV v :: st) (S nv) n1 pend st fk nv nv' K ce n0 rho P ownb ce HS ltac:(lia) ltac:(lia)
+            Hkl HK1 HK2 _ eq_refl _ (den qi rho v) _ HA HJ0).
+  { intros i [->|Hi]; lia. }
+  intros s0 fk' vs' n' Hj. pose proof Hj as (E' & Hn' & Hl' & Hp').
+  destruct (update_some vs' nv (SV s0)) as [vs1 U]; [lia|].
+  destruct (update_spec _ _ _ _ U) as (UL & UN & UO).
+  assert (HJ1 : Jstd ce rho n0 nv nv' P vs1 n') by (eapply Jstd_update; [exact S1'|exact Hj|exact U|lia]).
+  set (F0 := fk' ++ fk) in *.
+  eapply G_pre; [one st_store; apply steps_refl|eapply chg_update; [exact U|simpl; unfold ownb; lia]|simpl; lia|].
+  pose proof HJ1 as (E1 & Hn1 & Hl1 & Hp1).
+  pose proof (impl_inner qs IHs ce (S q1) n1 cs n2 Ec0 Hats rho v st F0 vs1 n' n0
+                ltac:(eapply envOK_nv; eauto; lia) Hn1 ltac:(lia)) as HB. cbv zeta in HB. fold q2 in HB.
+  set (cB := cbody c ownb ce fk').
+  set (JgB := fun (g : jv) (a' : list sv) => nth_error a' nv = Some (SV g)).
+  destruct (den qs rho v) as [ws sx] eqn:Eds. cbn [fst snd] in HB.
+  destruct (foreach_foldgen updf extf ws s0) as (gB & EfB).
+  assert (HGB : G cB (fst (foreach_fold updf extf ws s0))
+                  (Tend cB (match snd (foreach_fold updf extf ws s0) with Some e => Some e | None => sx end)
+                     (fun a' m => Jstd ce rho n0 nv nv' P a' m /\ JgB gB a'))
+                  (N (S q1) (SV v :: st) F0 vs1 n')).
+  { refine (fold_gen (ctx_of q2 st F0 n1 n2 (fun i => n1 <= i < n2 \/ kept ce i) ce n0) cB rho nv nv' P jv JgB
+              (foreach_step updf extf) (fun i => i = nv \/ n2 <= i < nv') ce eq_refl eq_refl eq_refl _ _ _ _ eq_refl _ _ _
+              ws s0 _ sx _ _ gB HB _ EfB).
+    - simpl. unfold ownb. intros; lia.
+    - simpl. unfold ownb. intros; lia.
+    - simpl. intros i [Hi|Hi]; split; try lia; [apply HK1; lia|apply HK2; auto|apply Hkl in Hi; lia].
+    - simpl. unfold ownb. intros i Hi. apply Hkl in Hi. lia.
+    - intros p q m m' Hq C Hm. eapply S1'; [|exact Hq|exact C|exact Hm]. simpl; intros; lia.
+    - intros g p q Hg C. unfold JgB in *. rewrite <- Hg. symmetry. apply C. simpl. lia.
+    - (* one source output w, accumulator g *)
+      intros w g fk2 vs2 m2 os2 x2 g2 [Hj2 Hg2] Efb. unfold foreach_step in Efb.
+      pose proof (foreach_upd_foldgen (extf w) (fst (updf w g)) g) as EfC.
+      inversion Efb; subst os2 x2 g2. clear Efb.
+      refine (upd_level qu IHu ce x n2 q2 cu n3 Ec1 Hatu nv A3 A4 rho w st (fk2 ++ F0) K n0 nv' P pend
+                (fun (_ : jv) u => (fst (extf w u), snd (extf w u), u)) (fun i => i = nv \/ n3 <= i < nv')
+                ltac:(lia) M4 HK1 HK2 Hkl S1' S2' _ _ g vs2 m2 Hj2 Hg2 _ _ _ EfC).
+      + intros i Hi. exact Hi.
+      + (* one update output u: dup; store acc; extract *)
+        intros u g3 fk3 vs3 m3 os3 x3 g3' [Hj3 Hg3] Efc. inversion Efc; subst os3 x3 g3'. clear Efc.
+        pose proof Hj3 as (E3 & Hn3 & Hl3 & Hp3).
+        destruct (update_some vs3 nv (SV u)) as [vs4 U4]; [lia|].
+        destruct (update_spec _ _ _ _ U4) as (UL4 & UN4 & UO4).
+        assert (Hnk : ~ kept ce3 nv).
+        { intros Hk. apply kept_add_var in Hk. destruct Hk as [Hk|Hk]; [lia|apply Hkl in Hk; lia]. }
+        assert (HJ4 : Jstd ce3 ((x, w) :: rho) n0 (S n2) nv' (Jstd ce rho n0 nv nv' P) vs4 m3).
+        { eapply Jstd_update_gen; [exact Hj3|exact U4|exact Hnk|].
+          eapply Jstd_update; [exact S1'|exact Hp3|exact U4|lia]. }
+        eapply G_pre; [one st_dup; one st_store; apply steps_refl|eapply chg_update; [exact U4|simpl; lia]|simpl; lia|].
+        set (JC := fun a' m => Jstd ce3 ((x, w) :: rho) n0 (S n2) nv' (Jstd ce rho n0 nv nv' P) a' m /\
+                               nth_error a' nv = Some (SV u)).
+        assert (JCk : forall cx' p q m m', g_keep cx' = K -> JC p m -> keepS cx' p q -> m <= m' -> JC q m').
+        { intros cx' p q m m' HKe [(Eq & Hnq & Hlq & Hpq) Hgq] Kp Hm. split.
+          - split; [eapply envOK_keep; [exact Eq|exact Kp|]|].
+            + rewrite HKe. intros i Hi. apply kept_add_var in Hi. destruct Hi as [->|Hi]; [apply HK1; lia|auto].
+            + split; [lia|]. split; [destruct Kp; lia|].
+              refine (Jstd_stable_cx cx' _ _ _ _ _ _ K S1' S2' HK2 HKe _ _ _ _ Hpq Kp Hm).
+          - rewrite <- Hgq. symmetry. apply Kp. rewrite HKe. apply HK1. lia. }
+        unfold extf. destruct ext as [e|].
+        * apply (impl_body e IHx ce3 (S (S q3)) n3 cx nv' Hx Hatx
+                   (cbody {| g_pc := pend; g_st := st; g_base := fk2 ++ F0; g_own := fun i => i = nv \/ S n2 <= i < nv';
+                             g_keep := K; g_ce := ce3; g_n0 := n0 |} (fun i => i = nv \/ n3 <= i < nv') ce3 fk3)
+                   ((x, w) :: rho) u vs4 m3 JC); simpl; auto; try lia.
+          -- intros; apply HK1; lia.
+          -- intros i Hi. apply kept_add_var in Hi. destruct Hi as [->|Hi]; [apply HK1; lia|auto].
+          -- destruct HJ4 as (E4 & _). eapply envOK_nv; eauto.
+          -- intros p q m m' [(Eq & Hnq & Hlq & Hpq) Hgq] C Hm. split.
+             ++ split; [eapply envOK_chg; [exact Eq|exact C|simpl; intros; lia]|]. split; [lia|]. split; [destruct C; lia|].
+                refine (Jstd_chg _ _ _ _ _ _ _ _ _ _ _ (fun x y k k' => S1' _ x y k k' _) _ Hpq C Hm); simpl; intros; lia.
+             ++ rewrite <- Hgq. symmetry. apply C. lia.
+          -- intros p q m m' Hq Kp Hm. refine (JCk _ p q m m' _ Hq Kp Hm). reflexivity.
+          -- split; [exact HJ4|exact UN4].
+        * destruct Hx as [-> ->]. cbn [fst snd].
+          eapply G_single; [simpl g_pc; simpl g_st; simpl g_base; unfold pend; simpl; rewrite Nat.add_0_r; apply steps_refl
+                           |apply chg_refl|simpl; lia|].
+          intros vs5 n5 Kp L5. refine (JCk _ vs4 vs5 m3 n5 _ _ Kp L5); [reflexivity|].
+          split; [exact HJ4|exact UN4].
+    - split; [exact HJ1|exact UN]. }
+  unfold f0. try rewrite Eds. fold updf. fold extf. cbv beta iota.
+  destruct (foreach_fold updf extf ws s0) as [os [ex|]] eqn:Eff; cbn [seq fst snd] in *.
+  - eapply G_impl; [|exact HGB]. intros s1. apply Tend_weaken. intros p m [Hq _]. exact Hq.
+  - rewrite app_nil_r. eapply G_impl; [|exact HGB]. intros s1. apply Tend_weaken. intros p m [Hq _]. exact Hq.
+Qed.
+
+Theorem impl_all : forall q, Impl q.
+Proof.
+  induction q as [ | c | a b IHa IHb | a b IHa IHb | | t IHt | t k IHt | c a b IHc IHa IHb | a b IHa IHb
+                 | a h IHa IHh | q IHq | s x i u IHs IHi IHu | s x i u e IHs IHi IHu IHe | l b IHb | l
+                 | s x b IHs IHb | x | f | o a b ] using query_ind'.
+  - apply impl_id. - apply impl_const. - apply impl_pipe; auto. - apply impl_comma; auto. - apply impl_empty.
+  - apply impl_iter; auto. - apply impl_index; auto. - apply impl_if; auto. - apply impl_alt; auto.
+  - apply impl_try; auto. - apply impl_array; auto. - apply impl_reduce; auto. - apply impl_foreach; auto.
+  - apply impl_label; auto. - apply impl_break. - apply impl_bind; auto. - apply impl_var. - apply impl_call0.
+  - apply impl_binop.
+Qed.
+
 End C.
+
+(* ---- whole programs ---- *)
+Section Top.
+Variable nt : natives.
+
+Lemma run_steps : forall code s s', steps nt code s s' -> forall f R, run nt code f s' = R -> exists f', run nt code f' s = R.
+Proof.
+  induction 1; intros f R HR; eauto.
+  destruct (IHsteps f R HR) as (f' & Hf'). exists (S f'). simpl. rewrite H. exact Hf'.
+Qed.
+
+(* how a whole run ends, given the ending of the denotation *)
+Definition run_is (r : result) (o : list jv * ending) : Prop :=
+  match snd r with
+  | None => o = (fst r, End)
+  | Some (XErr e) => o = (fst r, Error (VE (err_of e)))
+  | Some (XBrk _) => False              (* a closed program cannot end with a break *)
+  end.
+
+Lemma run_G : forall code rpc K (P : list sv -> nat -> Prop) fin,
+  rpc = length code - 1 -> nth_error code rpc = Some Iret ->
+  let c0 := ctx_of rpc [] [] 0 0 K ce_empty 0 in
+  forall ws hi s, G nt code rpc (ctx_of rpc [] [] 0 hi K ce_empty 0) ws (Tend nt code (ctx_of rpc [] [] 0 hi K ce_empty 0) fin P) s ->
+  exists f, run_is (ws, fin) (run nt code f s).
+Proof.
+  intros code rpc K P fin Hrpc Hret c0. induction ws; intros hi s HG.
+  - simpl in HG. destruct HG as (s' & St & _ & _ & (e & vs & n & St2 & _ & _ & HE & _)). simpl in St2, HE.
+    assert (HR : exists f, run_is ([], fin) (run nt code f (B e [] vs n))).
+    { exists 1. unfold run_is. simpl. destruct fin as [[e0|l]|]; simpl in HE.
+      - subst e. reflexivity.
+      - destruct HE as (k & id & Hk & _). simpl in Hk. discriminate.
+      - subst e. reflexivity. }
+    destruct HR as (f & Hf).
+    destruct (run_steps _ _ _ (steps_trans _ _ _ _ _ St St2) f _ eq_refl) as (f' & Hf'). exists f'. rewrite Hf'. exact Hf.
+  - simpl in HG. destruct HG as (fk' & vs3 & n3 & St & _ & _ & R).
+    destruct (R vs3 n3 (keepS_refl _ _) (le_n _)) as [R1 _]. simpl in R1.
+    destruct (IHws hi _ R1) as (f & Hf).
+    (* ret emits a; the next call of Next re-executes ret in backtrack mode *)
+    assert (E1 : step nt code (N rpc rpc (SV a :: []) (fk' ++ []) vs3 n3) =
+                 Emit a (Run rpc true None {| stk := []; scopes := []; forks := fk' ++ []; vars := vs3; lbl := n3 |})).
+    { unfold N, mk, sc. cbn [step]. rewrite Hret. reflexivity. }
+    assert (E2 : step nt code (Run rpc true None {| stk := []; scopes := []; forks := fk' ++ []; vars := vs3; lbl := n3 |}) =
+                 Next (B None (fk' ++ []) vs3 n3)).
+    { cbn [step]. rewrite Hret. reflexivity. }
+    assert (HR : exists f', run_is (a :: ws, fin) (run nt code f' (N rpc rpc (SV a :: []) (fk' ++ []) vs3 n3))).
+    { exists (S (S f)).
+      change (run nt code (S (S f)) (N rpc rpc [SV a] (fk' ++ []) vs3 n3)) with
+        (match step nt code (N rpc rpc [SV a] (fk' ++ []) vs3 n3) with
+         | Next s' => run nt code (S f) s'
+         | Emit v s' => let '(o, e) := run nt code (S f) s' in (v :: o, e)
+         | Halt None => ([], End) | Halt (Some e) => ([], Error e) | Stuck => ([], IsStuck) end).
+      rewrite E1.
+      change (run nt code (S f) (Run rpc true None {| stk := []; scopes := []; forks := fk' ++ []; vars := vs3; lbl := n3 |})) with
+        (match step nt code (Run rpc true None {| stk := []; scopes := []; forks := fk' ++ []; vars := vs3; lbl := n3 |}) with
+         | Next s' => run nt code f s'
+         | Emit v s' => let '(o, e) := run nt code f s' in (v :: o, e)
+         | Halt None => ([], End) | Halt (Some e) => ([], Error e) | Stuck => ([], IsStuck) end).
+      rewrite E2.
+      unfold run_is in *. cbn [fst snd] in *. destruct (run nt code f (B None (fk' ++ []) vs3 n3)) as [o e'].
+      destruct fin as [[e0|l]|]; auto; inversion Hf; subst; reflexivity. }
+    destruct HR as (f' & Hf'). simpl in St.
+    destruct (run_steps _ _ _ St f' _ eq_refl) as (f'' & Hf''). exists f''. rewrite Hf''. exact Hf'.
+Qed.
+
+Theorem compile_raw_correct : forall q code, compile_raw q = Some code ->
+  forall v, exists fuel, run_is (den nt q [] v) (run nt code fuel (init v)).
+Proof.
+  intros q code Hc v. unfold compile_raw in Hc.
+  destruct (comp q ce_empty 1 0) as [[c nv]|] eqn:Ec; [|discriminate]. inversion Hc; subst code. clear Hc.
+  set (code := Iscope mainscope nv 0 :: c ++ [Iret]).
+  set (rpc := length code - 1).
+  assert (Hlen : length code = S (S (length c))) by (unfold code; simpl; rewrite app_length; simpl; lia).
+  assert (Hrpc : rpc = 1 + length c) by (unfold rpc; lia).
+  assert (Hret : nth_error code rpc = Some Iret).
+  { rewrite Hrpc. unfold code. simpl. rewrite nth_error_app2 by lia. replace (length c - length c) with 0 by lia. reflexivity. }
+  assert (Hat : code_at code 1 c).
+  { intros i x Hi. unfold code. simpl. rewrite nth_error_app1; auto. apply nth_error_Some. congruence. }
+  set (vs0 := repeat (SV VNull) (2 * nv - 0)).
+  assert (E0 : step nt code (init v) = Next (N rpc 1 [SV v] [] vs0 0)).
+  { unfold init, N, mk, sc. cbn [step]. unfold code at 1. cbn [nth_error]. reflexivity. }
+  pose proof (impl_all nt code rpc q ce_empty 1 0 c nv Ec Hat [] v [] [] vs0 0 0 (fun _ => True) (fun _ _ => True)) as HI.
+  cbv zeta in HI.
+  assert (HG : G nt code rpc (ctx_of (1 + length c) [] [] 0 nv (fun _ => True) ce_empty 0) (fst (den nt q [] v))
+                 (Tend nt code (ctx_of (1 + length c) [] [] 0 nv (fun _ => True) ce_empty 0) (snd (den nt q [] v)) (fun _ _ => True))
+                 (N rpc 1 [SV v] [] vs0 0)).
+  { apply HI; auto.
+    - split; intros a k Hk; simpl in Hk; discriminate.
+    - unfold vs0. rewrite repeat_length. lia.
+    - split; auto. }
+  rewrite <- Hrpc in HG.
+  destruct (run_G code rpc (fun _ => True) (fun _ _ => True) (snd (den nt q [] v)) eq_refl Hret _ nv _ HG) as (f & Hf).
+  exists (S f).
+  change (run nt code (S f) (init v)) with
+    (match step nt code (init v) with
+     | Next s' => run nt code f s'
+     | Emit v s' => let '(o, e) := run nt code f s' in (v :: o, e)
+     | Halt None => ([], End) | Halt (Some e) => ([], Error e) | Stuck => ([], IsStuck) end).
+  rewrite E0. destruct (den nt q [] v) as [ws fin]. exact Hf.
+Qed.
+End Top.
+
